@@ -1,1 +1,1438 @@
+(* C18 — proofs: the connection invariant is preserved by every modelled operation used within
+   the property's preconditions, hence by every history. *)
+From Coq Require Import ZArith Lia.
 From V Require Import C18.Model.
+Close Scope Q_scope.
+Open Scope nat_scope.
+
+(* ================================================================ basic facts *)
+Lemma obj_eqb_eq a b : obj_eqb a b = true <-> a = b.
+Proof.
+  destruct a as [x|x], b as [y|y]; simpl; split; intro H; try discriminate;
+    try (apply Nat.eqb_eq in H; now subst); inversion H; apply Nat.eqb_refl.
+Qed.
+Lemma obj_eqb_refl a : obj_eqb a a = true.
+Proof. now apply obj_eqb_eq. Qed.
+Lemma obj_eqb_neq a b : obj_eqb a b = false <-> a <> b.
+Proof.
+  split; intro H.
+  - intro E. apply obj_eqb_eq in E. congruence.
+  - destruct (obj_eqb a b) eqn:E; [apply obj_eqb_eq in E; contradiction | reflexivity].
+Qed.
+Lemma obj_dec (a b : obj) : a = b \/ a <> b.
+Proof. destruct (obj_eqb a b) eqn:E; [left; now apply obj_eqb_eq | right; now apply obj_eqb_neq]. Qed.
+Lemma side_eqb_refl sd : side_eqb sd sd = true.
+Proof. now destruct sd. Qed.
+Lemma side_eqb_other sd : side_eqb (other sd) sd = false.
+Proof. now destruct sd. Qed.
+Lemma side_eqb_other' sd : side_eqb sd (other sd) = false.
+Proof. now destruct sd. Qed.
+Lemma side_eqb_eq a b : side_eqb a b = true <-> a = b.
+Proof. destruct a, b; simpl; split; congruence. Qed.
+
+Lemma mem_In x l : mem x l = true <-> In x l.
+Proof.
+  unfold mem. rewrite existsb_exists. split.
+  - intros (y & Hy & E). apply obj_eqb_eq in E. now subst.
+  - intro H. exists x. split; [assumption | apply obj_eqb_refl].
+Qed.
+Lemma mem_false x l : mem x l = false <-> ~ In x l.
+Proof.
+  split; intro H.
+  - intro HI. apply mem_In in HI. congruence.
+  - destruct (mem x l) eqn:E; [apply mem_In in E; contradiction | reflexivity].
+Qed.
+Lemma nodupb_NoDup l : nodupb l = true <-> NoDup l.
+Proof.
+  induction l as [|a l IH]; simpl.
+  - split; [constructor | reflexivity].
+  - rewrite andb_true_iff, negb_true_iff, mem_false, IH. split.
+    + intros [H1 H2]. now constructor.
+    + intro H. inversion H; subst. now split.
+Qed.
+
+(* index_of finds the first occurrence *)
+Lemma index_of_split x l k : index_of x l = Some k ->
+  exists l1 l2, l = l1 ++ x :: l2 /\ length l1 = k /\ ~ In x l1.
+Proof.
+  revert k. induction l as [|y l IH]; simpl; intros k H; [discriminate|].
+  destruct (obj_eqb y x) eqn:E.
+  - apply obj_eqb_eq in E. subst y. inversion H; subst. exists [], l. simpl. auto.
+  - destruct (index_of x l) as [j|] eqn:Ej; simpl in H; [|discriminate]. inversion H; subst.
+    destruct (IH j eq_refl) as (l1 & l2 & -> & L & NI).
+    exists (y :: l1), l2. simpl. repeat split; auto.
+    intros [F|F]; [subst; rewrite obj_eqb_refl in E; discriminate | contradiction].
+Qed.
+Lemma index_of_None x l : index_of x l = None <-> ~ In x l.
+Proof.
+  induction l as [|y l IH]; simpl.
+  - split; auto.
+  - destruct (obj_eqb y x) eqn:E.
+    + apply obj_eqb_eq in E. subst. split; [discriminate | intro H; exfalso; apply H; now left].
+    + apply obj_eqb_neq in E. destruct (index_of x l); simpl.
+      * split; [discriminate|]. intro H. exfalso. apply H. right. destruct IH as [_ IH].
+        destruct (in_dec (fun a b => ltac:(destruct (obj_eqb a b) eqn:Q; [left; now apply obj_eqb_eq | right; now apply obj_eqb_neq])) x l) as [I|NI]; [assumption|].
+        specialize (IH NI). discriminate.
+      * split; [|reflexivity]. intros _ [F|F]; [contradiction|]. now apply IH.
+Qed.
+Lemma index_of_In x l : In x l -> exists k, index_of x l = Some k.
+Proof.
+  intro H. destruct (index_of x l) eqn:E; [eauto|]. apply index_of_None in E. contradiction.
+Qed.
+
+Lemma upd_app {A} (l1 l2 : list A) a x : upd (l1 ++ a :: l2) (length l1) x = l1 ++ x :: l2.
+Proof. induction l1; simpl; [reflexivity | now rewrite IHl1]. Qed.
+Lemma nth_app_mid {A} (l1 l2 : list A) a d : nth (length l1) (l1 ++ a :: l2) d = a.
+Proof. induction l1; simpl; auto. Qed.
+Lemma nth_split' {A} (l : list A) k d : k < length l ->
+  exists l1 l2, l = l1 ++ nth k l d :: l2 /\ length l1 = k.
+Proof.
+  revert k. induction l as [|a l IH]; simpl; intros k H; [lia|].
+  destruct k.
+  - exists [], l. auto.
+  - destruct (IH k ltac:(lia)) as (l1 & l2 & E & L). exists (a :: l1), l2. simpl. split; [now f_equal | now f_equal].
+Qed.
+Lemma upd_out {A} (l : list A) k x : length l <= k -> upd l k x = l.
+Proof. revert k. induction l; simpl; intros k H; [reflexivity|]. destruct k; [lia|]. f_equal. apply IHl. lia. Qed.
+
+Lemma NoDup_app_iff {A} (l1 l2 : list A) :
+  NoDup (l1 ++ l2) <-> NoDup l1 /\ NoDup l2 /\ (forall x, In x l1 -> ~ In x l2).
+Proof.
+  induction l1 as [|a l1 IH]; simpl.
+  - split; [intro H; repeat split; [constructor | assumption | auto] | tauto].
+  - split.
+    + intro H. inversion H as [|? ? NI ND]; subst. apply IH in ND. destruct ND as (N1 & N2 & D).
+      repeat split; [constructor; [intro F; apply NI, in_or_app; now left | assumption] | assumption |].
+      intros x [->|Hx]; [intro F; apply NI, in_or_app; now right | now apply D].
+    + intros (N1 & N2 & D). inversion N1 as [|? ? NI ND]; subst. constructor.
+      * intro F. apply in_app_or in F. destruct F as [F|F]; [contradiction | apply (D a); auto].
+      * apply IH. repeat split; auto.
+Qed.
+
+(* ================================================================ Python index arithmetic *)
+Lemma norm_index_lt i n k : norm_index i n = Some k -> k < n.
+Proof.
+  unfold norm_index. destruct (i <? 0)%Z eqn:E; intro H;
+    match type of H with (if ?c then _ else _) = _ => destruct c eqn:C; [|discriminate] end;
+    inversion H; subst; apply andb_true_iff in C; destruct C as [C1 C2];
+    apply Z.leb_le in C1; apply Z.ltb_lt in C2; lia.
+Qed.
+Lemma norm_index_of_nat k n : k < n -> norm_index (Z.of_nat k) n = Some k.
+Proof.
+  intro H. unfold norm_index.
+  destruct (Z.of_nat k <? 0)%Z eqn:E; [apply Z.ltb_lt in E; lia|].
+  replace ((0 <=? Z.of_nat k)%Z && (Z.of_nat k <? Z.of_nat n)%Z) with true.
+  - now rewrite Nat2Z.id.
+  - symmetry. apply andb_true_iff. split; [apply Z.leb_le | apply Z.ltb_lt]; lia.
+Qed.
+Lemma slice_bounds_ok lo hi n a b : slice_bounds lo hi n = (a, b) -> a <= b /\ a <= n /\ b <= n.
+Proof.
+  unfold slice_bounds. intro H. inversion H; subst; clear H.
+  assert (C : forall i d, d <= n -> clampZ i n d <= n).
+  { intros [i|] d Hd; simpl; [|assumption]. destruct (i <? 0)%Z eqn:E; [|lia].
+    apply Z.ltb_lt in E. lia. }
+  pose proof (C lo 0 ltac:(lia)). pose proof (C hi n ltac:(lia)). lia.
+Qed.
+
+(* ================================================================ the invariant *)
+Definition obj_okP (w : world) (x : obj) : Prop := match x with S_ n => n < nreal w | M_ n => n < fresh w end.
+Lemma obj_ok_P w x : obj_ok w x = true <-> obj_okP w x.
+Proof. destruct x; simpl; apply Nat.ltb_lt. Qed.
+
+(* one side of the connection graph (SIn: inlets and sinks; SOut: outlets and sources) *)
+Record InvS (sd : side) (w : world) : Prop := mkInvS {
+  I_ptr   : forall u x, In x (ports w sd u) -> ptr w sd x = Some u;        (* listed => points back (streams and placeholders) *)
+  I_real  : forall u n, ptr w sd (S_ n) = Some u -> In (S_ n) (ports w sd u);   (* a stream that points at u is listed at u *)
+  I_nodup : forall u, NoDup (ports w sd u);                                (* no object occupies two ports *)
+  I_len   : forall u, pfixed w sd u = true -> length (ports w sd u) = psize w sd u;
+  I_ok    : forall u x, In x (ports w sd u) -> obj_okP w x;                 (* only objects that exist are listed *)
+  I_new   : forall n, nreal w <= n -> ptr w sd (S_ n) = None;
+  I_units : forall u, nunits w <= u -> ports w sd u = [];
+  I_uptr  : forall x u, ptr w sd x = Some u -> u < nunits w
+}.
+Definition Inv (w : world) : Prop := InvS SIn w /\ InvS SOut w.
+
+(* the invariant with unit u's list under repair: the objects in R sit in u's list but have not been
+   redocked yet; u's length is not constrained *)
+Record J (sd : side) (u : nat) (R : list obj) (w : world) : Prop := mkJ {
+  J_ptr   : forall v x, In x (ports w sd v) -> ptr w sd x = Some v \/ (v = u /\ In x R);
+  J_real  : forall v n, ptr w sd (S_ n) = Some v -> In (S_ n) (ports w sd v);
+  J_nodup : forall v, NoDup (ports w sd v);
+  J_len   : forall v, v <> u -> pfixed w sd v = true -> length (ports w sd v) = psize w sd v;
+  J_ok    : forall v x, In x (ports w sd v) -> obj_okP w x;
+  J_new   : forall n, nreal w <= n -> ptr w sd (S_ n) = None;
+  J_units : forall v, nunits w <= v -> ports w sd v = [];
+  J_uptr  : forall x v, ptr w sd x = Some v -> v < nunits w;
+  J_R     : forall x, In x R -> In x (ports w sd u)
+}.
+
+Lemma Inv_J sd u w : InvS sd w -> J sd u [] w.
+Proof.
+  intros [A B C D E F G H]. constructor; auto; simpl; tauto.
+Qed.
+Lemma J_Inv sd u w : J sd u [] w ->
+  (pfixed w sd u = true -> length (ports w sd u) = psize w sd u) -> InvS sd w.
+Proof.
+  intros [A B C D E F G H K] L. constructor; auto.
+  - intros v x HI. destruct (A v x HI) as [P|[_ []]]. exact P.
+  - intros v Hf. destruct (Nat.eq_dec v u) as [->|N]; auto.
+Qed.
+
+(* the other side is only touched by the creation of placeholders *)
+Record frame (sd : side) (w w' : world) : Prop := mkFrame {
+  F_ports : forall u, ports w' sd u = ports w sd u;
+  F_ptr   : forall x, obj_okP w x -> ptr w' sd x = ptr w sd x;
+  F_ptr'  : forall x, ptr w' sd x = ptr w sd x \/ ptr w' sd x = None;
+  F_fresh : fresh w <= fresh w';
+  F_nreal : nreal w' = nreal w;
+  F_nunits: nunits w' = nunits w;
+  F_psize : forall u, psize w' sd u = psize w sd u;
+  F_pfixed: forall u, pfixed w' sd u = pfixed w sd u
+}.
+Lemma frame_refl sd w : frame sd w w.
+Proof. constructor; auto. Qed.
+Lemma okP_mono w w' x : fresh w <= fresh w' -> nreal w <= nreal w' -> obj_okP w x -> obj_okP w' x.
+Proof. destruct x; simpl; lia. Qed.
+Lemma frame_trans sd w1 w2 w3 : frame sd w1 w2 -> frame sd w2 w3 -> frame sd w1 w3.
+Proof.
+  intros [A1 B1 C1 D1 E1 G1 H1 K1] [A2 B2 C2 D2 E2 G2 H2 K2]. constructor; try congruence; try lia.
+  - intros x Hx. rewrite B2, B1; auto. eapply okP_mono; eauto. lia.
+  - intros x. destruct (C2 x) as [P|P]; [rewrite P; apply C1 | now right].
+Qed.
+Lemma frame_InvS sd w w' : frame sd w w' -> InvS sd w -> InvS sd w'.
+Proof.
+  intros [A B C D E G H K] [a b c d e f g h]. constructor.
+  - intros u x HI. rewrite A in HI. rewrite B; eauto.
+  - intros u n P. rewrite A. rewrite B in P; [auto | simpl].
+    destruct (Nat.lt_ge_cases n (nreal w)) as [L|L]; [assumption|].
+    destruct (C (S_ n)) as [Q|Q]; rewrite Q in P; [rewrite f in P by assumption|]; discriminate.
+  - intro u. rewrite A. apply c.
+  - intros u Hf. rewrite A, H. rewrite K in Hf. auto.
+  - intros u x HI. rewrite A in HI. eapply okP_mono; [| |eauto]; lia.
+  - intros n L. destruct (C (S_ n)) as [Q|Q]; rewrite Q; [apply f; lia | reflexivity].
+  - intros u L. rewrite A. apply g. lia.
+  - intros x u P. destruct (C x) as [Q|Q]; rewrite Q in P; [rewrite G; eauto | discriminate].
+Qed.
+
+(* ================================================================ world updates *)
+Lemma NoDup_swap (l1 l2 : list obj) x m :
+  NoDup (l1 ++ x :: l2) -> ~ In m (l1 ++ l2) -> NoDup (l1 ++ m :: l2).
+Proof.
+  intros H NI. apply NoDup_remove in H. destruct H as [H _].
+  apply (NoDup_Add (Add_app m l1 l2)). split; assumption.
+Qed.
+
+Section Side.
+Variable sd : side.
+
+Lemma ports_upd_ports w u l v : ports (upd_ports w sd u l) sd v = if v =? u then l else ports w sd v.
+Proof. unfold upd_ports; simpl. now rewrite side_eqb_refl. Qed.
+Lemma ports_upd_ports_eq w u l : ports (upd_ports w sd u l) sd u = l.
+Proof. rewrite ports_upd_ports. now rewrite Nat.eqb_refl. Qed.
+Lemma ports_upd_ports_neq w u l v : v <> u -> ports (upd_ports w sd u l) sd v = ports w sd v.
+Proof. intro H. rewrite ports_upd_ports. apply Nat.eqb_neq in H. now rewrite H. Qed.
+Lemma ptr_upd_ptr w x p y : ptr (upd_ptr w sd x p) sd y = if obj_eqb y x then p else ptr w sd y.
+Proof. unfold upd_ptr; simpl. now rewrite side_eqb_refl. Qed.
+Lemma ptr_upd_ptr_eq w x p : ptr (upd_ptr w sd x p) sd x = p.
+Proof. rewrite ptr_upd_ptr. now rewrite obj_eqb_refl. Qed.
+Lemma ptr_upd_ptr_neq w x p y : y <> x -> ptr (upd_ptr w sd x p) sd y = ptr w sd y.
+Proof. intro H. rewrite ptr_upd_ptr. apply obj_eqb_neq in H. now rewrite H. Qed.
+
+Lemma frame_upd_ports w u l : frame (other sd) w (upd_ports w sd u l).
+Proof.
+  constructor; auto. intro v. unfold upd_ports; simpl. now rewrite side_eqb_other.
+Qed.
+Lemma frame_upd_ptr w x p : frame (other sd) w (upd_ptr w sd x p).
+Proof.
+  constructor; auto; intros; unfold upd_ptr; simpl; rewrite side_eqb_other; auto.
+Qed.
+Lemma frame_new_missing w u : frame (other sd) w (fst (new_missing w sd u)).
+Proof.
+  unfold new_missing; simpl. constructor; simpl; auto.
+  - intros x Hx. rewrite side_eqb_other. simpl. replace (side_eqb (other sd) (other sd)) with true by (now destruct sd).
+    simpl. destruct (obj_eqb x (M_ (fresh w))) eqn:E; [|reflexivity].
+    apply obj_eqb_eq in E. subst. simpl in Hx. lia.
+  - intro x. rewrite side_eqb_other. simpl. replace (side_eqb (other sd) (other sd)) with true by (now destruct sd).
+    simpl. destruct (obj_eqb x (M_ (fresh w))); auto.
+Qed.
+
+(* what new_missing does on its own side *)
+Lemma new_missing_spec w u w1 m : new_missing w sd u = (w1, m) ->
+  m = M_ (fresh w) /\ (forall v, ports w1 sd v = ports w sd v) /\
+  ptr w1 sd m = Some u /\ (forall y, y <> m -> ptr w1 sd y = ptr w sd y) /\
+  fresh w1 = S (fresh w) /\ nreal w1 = nreal w /\ nunits w1 = nunits w /\
+  (forall s v, psize w1 s v = psize w s v) /\ (forall s v, pfixed w1 s v = pfixed w s v).
+Proof.
+  unfold new_missing. intro H. inversion H; subst; clear H. simpl.
+  repeat split; auto.
+  - rewrite side_eqb_other'. simpl. now rewrite side_eqb_refl, Nat.eqb_refl.
+  - intros y Hy. rewrite side_eqb_other'. simpl. rewrite side_eqb_refl. simpl.
+    apply obj_eqb_neq in Hy. now rewrite Hy.
+Qed.
+
+(* ---------------------------------------------------------------- docking *)
+Lemma dock_J u x R w :
+  J sd u (x :: R) w -> u < nunits w -> obj_okP w x ->
+  (forall v, v <> u -> ~ In x (ports w sd v)) ->
+  J sd u R (dock w sd u x).
+Proof.
+  intros [A B C D E F G H K] Hu Hx NE. unfold dock.
+  constructor; simpl; try assumption.
+  - intros v y HI. change (ptr (upd_ptr w sd x (Some u)) sd y = Some v \/ v = u /\ In y R).
+    rewrite ptr_upd_ptr. destruct (obj_eqb y x) eqn:Eq.
+    + apply obj_eqb_eq in Eq. subst y. destruct (Nat.eq_dec v u) as [->|N]; [now left|]. exfalso. eapply NE; eauto.
+    + apply obj_eqb_neq in Eq. destruct (A v y HI) as [P|[P [Q|Q]]]; auto. congruence.
+  - intros v n. change (ptr (upd_ptr w sd x (Some u)) sd (S_ n) = Some v -> In (S_ n) (ports w sd v)).
+    rewrite ptr_upd_ptr. destruct (obj_eqb (S_ n) x) eqn:Eq.
+    + apply obj_eqb_eq in Eq. subst x. intro P. inversion P; subst. apply K. now left.
+    + apply B.
+  - intros n L. change (ptr (upd_ptr w sd x (Some u)) sd (S_ n) = None).
+    rewrite ptr_upd_ptr. destruct (obj_eqb (S_ n) x) eqn:Eq; [|auto].
+    apply obj_eqb_eq in Eq. subst x. simpl in Hx. lia.
+  - intros y v. change (ptr (upd_ptr w sd x (Some u)) sd y = Some v -> v < nunits w).
+    rewrite ptr_upd_ptr. destruct (obj_eqb y x); [intro P; inversion P; now subst | apply H].
+  - intros y HI. apply K. now right.
+Qed.
+
+Lemma redock_J u x R w :
+  J sd u (x :: R) w -> u < nunits w -> obj_okP w x -> J sd u R (redock w sd u x).
+Proof.
+  intros HJ Hu Hx. unfold redock.
+  destruct (ptr w sd x) as [v|] eqn:P.
+  2:{ apply dock_J; auto. intros v N HI. destruct (J_ptr _ _ _ _ HJ v x HI) as [Q|[Q _]]; congruence. }
+  destruct (v =? u) eqn:Evu.
+  { apply Nat.eqb_eq in Evu. subst v. destruct HJ as [A B C D E F G H K]. constructor; auto.
+    - intros v y HI. destruct (A v y HI) as [Q|[Q [R'|R']]]; auto. subst. now left.
+    - intros y HI. apply K. now right. }
+  apply Nat.eqb_neq in Evu.
+  destruct (mem x (ports w sd v)) eqn:Em.
+  2:{ apply mem_false in Em. apply dock_J; auto. intros v' N HI.
+      destruct (J_ptr _ _ _ _ HJ v' x HI) as [Q|[Q _]]; [|contradiction]. rewrite P in Q. inversion Q; subst. contradiction. }
+  apply mem_In in Em.
+  (* the stream is listed at another unit v: it is replaced there by a new placeholder *)
+  destruct HJ as [A B C D E F G H K].
+  unfold vacate. destruct (new_missing w sd v) as [w1 m] eqn:NM.
+  destruct (new_missing_spec _ _ _ _ NM) as (Hm & Hp & Hpm & Hpo & Hf & Hr & Hn & Hs & Hfx).
+  rewrite Hp. destruct (index_of_In _ _ Em) as [k Ek]. rewrite Ek.
+  destruct (index_of_split _ _ _ Ek) as (l1 & l2 & EL & Lk & NI1).
+  assert (Xm : x <> m). { intro Q. subst x m. simpl in Hx. lia. }
+  assert (Fm : forall v' y, In y (ports w sd v') -> y <> m).
+  { intros v' y HI Q. subst y m. apply E in HI. simpl in HI. lia. }
+  set (wf := dock (upd_ports (undock w1 sd x) sd v (upd (ports (undock w1 sd x) sd v) k m)) sd u x).
+  assert (PF : forall y, ptr wf sd y = if obj_eqb y x then Some u else if obj_eqb y m then Some v else ptr w sd y).
+  { intro y. unfold wf, dock, undock. rewrite ptr_upd_ptr. destruct (obj_eqb y x) eqn:Eyx; [reflexivity|].
+    change (ptr (upd_ptr w1 sd x None) sd y = if obj_eqb y m then Some v else ptr w sd y).
+    rewrite ptr_upd_ptr, Eyx. destruct (obj_eqb y m) eqn:Eym.
+    - apply obj_eqb_eq in Eym. now subst y.
+    - apply obj_eqb_neq in Eym. now apply Hpo. }
+  assert (LF : forall v', ports wf sd v' = if v' =? v then l1 ++ m :: l2 else ports w sd v').
+  { intro v'. unfold wf, dock, undock.
+    change (ports (upd_ports (upd_ptr w1 sd x None) sd v (upd (ports w1 sd v) k m)) sd v' = if v' =? v then l1 ++ m :: l2 else ports w sd v').
+    rewrite ports_upd_ports. destruct (v' =? v); [|apply Hp].
+    rewrite Hp, EL, <- Lk. apply upd_app. }
+  assert (ND : NoDup (l1 ++ x :: l2)) by (rewrite <- EL; apply C).
+  assert (FR : fresh wf = S (fresh w)) by exact Hf.
+  assert (NR : nreal wf = nreal w) by exact Hr.
+  assert (NU : nunits wf = nunits w) by exact Hn.
+  assert (Vlt : v < nunits w) by (eapply H; eauto).
+  assert (PS : forall v', psize wf sd v' = psize w sd v') by (intro; apply Hs).
+  assert (PX : forall v', pfixed wf sd v' = pfixed w sd v') by (intro; apply Hfx).
+  clearbody wf.
+  constructor.
+  - intros v' y. rewrite LF, PF. destruct (v' =? v) eqn:Ev.
+    + apply Nat.eqb_eq in Ev. subst v'. intro HI. left.
+      apply in_app_iff in HI. simpl in HI.
+      destruct (obj_eqb y x) eqn:Eyx.
+      { apply obj_eqb_eq in Eyx. subst y. exfalso.
+        apply NoDup_remove_2 in ND. apply ND. apply in_app_iff. destruct HI as [HI|[HI|HI]]; auto. congruence. }
+      destruct (obj_eqb y m) eqn:Eym; [reflexivity|].
+      apply obj_eqb_neq in Eym.
+      assert (HI' : In y (ports w sd v)). { rewrite EL. apply in_app_iff. simpl. destruct HI as [HI|[HI|HI]]; auto. congruence. }
+      destruct (A v y HI') as [Q|[Q _]]; [assumption | contradiction].
+    + apply Nat.eqb_neq in Ev. intro HI. destruct (obj_eqb y x) eqn:Eyx.
+      * apply obj_eqb_eq in Eyx. subst y. destruct (A v' x HI) as [Q|[Q _]]; [rewrite P in Q; inversion Q; congruence | subst; now left].
+      * apply obj_eqb_neq in Eyx. pose proof (Fm v' y HI) as Ym. apply obj_eqb_neq in Ym. rewrite Ym.
+        destruct (A v' y HI) as [Q|[Q [R'|R']]]; auto. congruence.
+  - intros v' n. rewrite LF, PF. destruct (obj_eqb (S_ n) x) eqn:Eyx.
+    + apply obj_eqb_eq in Eyx. intro Q. inversion Q; subst v'. apply Nat.eqb_neq in Evu.
+      rewrite Nat.eqb_sym in Evu. rewrite Evu. apply K. left. auto.
+    + apply obj_eqb_neq in Eyx. replace (obj_eqb (S_ n) m) with false by (subst m; reflexivity).
+      intro Q. pose proof (B v' n Q) as HI. destruct (v' =? v) eqn:Ev; [|assumption].
+      apply Nat.eqb_eq in Ev. subst v'. rewrite EL in HI. apply in_app_iff in HI. apply in_app_iff.
+      destruct HI as [HI|[HI|HI]]; [now left | congruence | right; now right].
+  - intro v'. rewrite LF. destruct (v' =? v); [|apply C].
+    eapply NoDup_swap; [exact ND|]. intro HI. apply (Fm v m); [|reflexivity].
+    rewrite EL. apply in_app_iff in HI. apply in_app_iff. simpl. tauto.
+  - intros v' N. rewrite LF, PS, PX. destruct (v' =? v) eqn:Ev; [|now apply D].
+    apply Nat.eqb_eq in Ev. subst v'. intro Fx. rewrite <- (D v N Fx), EL, !app_length. reflexivity.
+  - intros v' y. rewrite LF. intro HI.
+    assert (Q : y = m \/ exists v'', In y (ports w sd v'')).
+    { destruct (v' =? v); [|right; eauto]. apply in_app_iff in HI. destruct HI as [HI|[HI|HI]]; auto;
+      right; exists v; rewrite EL; apply in_app_iff; [now left | right; now right]. }
+    destruct Q as [->|(v'' & Q)].
+    + rewrite Hm. simpl. lia.
+    + eapply okP_mono; [| |eapply E; eauto]; lia.
+  - intros n L. rewrite PF. rewrite NR in L. destruct (obj_eqb (S_ n) x) eqn:Eyx.
+    + apply obj_eqb_eq in Eyx. subst x. simpl in Hx. lia.
+    + replace (obj_eqb (S_ n) m) with false by (subst m; reflexivity). now apply F.
+  - intros v' L. rewrite LF. rewrite NU in L. destruct (v' =? v) eqn:Ev; [apply Nat.eqb_eq in Ev; lia | now apply G].
+  - intros y v'. rewrite PF, NU. destruct (obj_eqb y x); [intro Q; inversion Q; now subst|].
+    destruct (obj_eqb y m); [intro Q; inversion Q; now subst | apply H].
+  - intros y HI. rewrite LF. apply Nat.eqb_neq in Evu. rewrite Nat.eqb_sym in Evu. rewrite Evu. apply K. now right.
+Qed.
+
+(* ---------------------------------------------------------------- what redock leaves alone *)
+Record stat (w w' : world) : Prop := mkStat {
+  St_nunits : nunits w' = nunits w;
+  St_nreal  : nreal w' = nreal w;
+  St_fresh  : fresh w <= fresh w';
+  St_psize  : forall s v, psize w' s v = psize w s v;
+  St_pfixed : forall s v, pfixed w' s v = pfixed w s v
+}.
+Lemma stat_refl w : stat w w.
+Proof. constructor; auto. Qed.
+Lemma stat_trans w1 w2 w3 : stat w1 w2 -> stat w2 w3 -> stat w1 w3.
+Proof. intros [A B C D E] [A' B' C' D' E']. constructor; try congruence; try lia; intros; rewrite ?D', ?E'; auto. Qed.
+Lemma stat_okP w w' x : stat w w' -> obj_okP w x -> obj_okP w' x.
+Proof. intros [A B C D E]. apply okP_mono; lia. Qed.
+
+Lemma redock_misc u x w :
+  frame (other sd) w (redock w sd u x) /\ stat w (redock w sd u x) /\
+  ports (redock w sd u x) sd u = ports w sd u.
+Proof.
+  unfold redock. destruct (ptr w sd x) as [v|].
+  2:{ split; [apply frame_upd_ptr | split; [constructor; simpl; auto | reflexivity]]. }
+  destruct (v =? u) eqn:Evu; [split; [apply frame_refl | split; [apply stat_refl | reflexivity]]|].
+  destruct (mem x (ports w sd v)); [|split; [apply frame_upd_ptr | split; [constructor; simpl; auto | reflexivity]]].
+  unfold vacate. destruct (new_missing w sd v) as [w1 m] eqn:NM.
+  pose proof (frame_new_missing w v) as FN. rewrite NM in FN. simpl in FN.
+  destruct (new_missing_spec _ _ _ _ NM) as (Hm & Hp & Hpm & Hpo & Hf & Hr & Hn & Hs & Hfx).
+  destruct (index_of x (ports w1 sd v)) as [k|].
+  - split; [|split].
+    + unfold dock, undock. eapply frame_trans; [exact FN|]. eapply frame_trans; [apply frame_upd_ptr|].
+      eapply frame_trans; [apply frame_upd_ports | apply frame_upd_ptr].
+    + constructor; simpl; auto. lia.
+    + unfold dock, undock.
+      change (ports (upd_ports (upd_ptr w1 sd x None) sd v (upd (ports w1 sd v) k m)) sd u = ports w sd u).
+      rewrite ports_upd_ports. rewrite Nat.eqb_sym, Evu. apply Hp.
+  - split; [|split].
+    + unfold dock. eapply frame_trans; [exact FN | apply frame_upd_ptr].
+    + constructor; simpl; auto. lia.
+    + unfold dock. simpl. apply Hp.
+Qed.
+
+Lemma J_weaken u R R' w : J sd u R w -> (forall y, In y R -> In y R') ->
+  (forall y, In y R' -> In y (ports w sd u)) -> J sd u R' w.
+Proof.
+  intros [A B C D E F G H K] S1 S2. constructor; auto.
+  intros v y HI. destruct (A v y HI) as [Q|[Q1 Q2]]; auto.
+Qed.
+
+Lemma redock_all_J u R : forall w, J sd u R w -> u < nunits w -> (forall y, In y R -> obj_okP w y) ->
+  let w' := fold_left (fun w x => redock w sd u x) R w in
+  J sd u [] w' /\ frame (other sd) w w' /\ stat w w' /\ ports w' sd u = ports w sd u.
+Proof.
+  induction R as [|x R IH]; intros w HJ Hu Hok; simpl.
+  - split; [assumption | split; [apply frame_refl | split; [apply stat_refl | reflexivity]]].
+  - destruct (redock_misc u x w) as (Fr & St & Pu).
+    assert (HJ' : J sd u R (redock w sd u x)) by (apply redock_J; auto; apply Hok; now left).
+    destruct (IH (redock w sd u x) HJ') as (J' & Fr' & St' & Pu').
+    + destruct St as [A _ _ _ _]. lia.
+    + intros y Hy. eapply stat_okP; [exact St|]. apply Hok. now right.
+    + split; [assumption | split; [eapply frame_trans; eauto | split; [eapply stat_trans; eauto | simpl in Pu'; congruence]]].
+Qed.
+
+(* ---------------------------------------------------------------- undocking a segment and writing new contents *)
+Lemma undock_all_ptr olds : forall w y,
+  ptr (undock_all w sd olds) sd y = if mem y olds then None else ptr w sd y.
+Proof.
+  unfold undock_all. induction olds as [|o olds IH]; intros w y; simpl; [reflexivity|].
+  rewrite IH. unfold undock. rewrite ptr_upd_ptr.
+  destruct (obj_eqb y o) eqn:E; simpl.
+  - destruct (mem y olds); reflexivity.
+  - reflexivity.
+Qed.
+Lemma undock_all_misc olds : forall w,
+  (forall s v, ports (undock_all w sd olds) s v = ports w s v) /\ stat w (undock_all w sd olds) /\
+  fresh (undock_all w sd olds) = fresh w /\ frame (other sd) w (undock_all w sd olds).
+Proof.
+  unfold undock_all. induction olds as [|o olds IH]; intro w; simpl.
+  - split; [reflexivity | split; [apply stat_refl | split; [reflexivity | apply frame_refl]]].
+  - destruct (IH (undock w sd o)) as (A & B & C & D). split; [|split; [|split]].
+    + intros. rewrite A. reflexivity.
+    + eapply stat_trans; [|exact B]. constructor; simpl; auto.
+    + rewrite C. reflexivity.
+    + eapply frame_trans; [apply frame_upd_ptr | exact D].
+Qed.
+
+Lemma slice_J u w l1 olds l2 ys :
+  InvS sd w -> u < nunits w -> ports w sd u = l1 ++ olds ++ l2 ->
+  NoDup ys -> (forall y, In y ys -> ~ In y (l1 ++ l2)) -> (forall y, In y ys -> obj_okP w y) ->
+  J sd u ys (upd_ports (undock_all w sd olds) sd u (l1 ++ ys ++ l2)).
+Proof.
+  intros [A B C D E F G H] Hu EL NDy Dis Oky.
+  destruct (undock_all_misc olds w) as (Po & St & Fr & _).
+  pose proof (C u) as NDl. rewrite EL in NDl.
+  assert (NDl' : NoDup (l1 ++ l2)).
+  { apply NoDup_app_iff in NDl. destruct NDl as (N1 & N2 & N3). apply NoDup_app_iff in N2. destruct N2 as (N4 & N5 & N6).
+    apply NoDup_app_iff. repeat split; auto. intros x Hx Hx'. apply (N3 x Hx). apply in_or_app. now right. }
+  assert (Old : forall y, In y (l1 ++ l2) -> mem y olds = false).
+  { intros y Hy. apply mem_false. intro Ho. apply NoDup_app_iff in NDl. destruct NDl as (N1 & N2 & N3).
+    apply in_app_or in Hy. destruct Hy as [Hy|Hy].
+    - apply (N3 y Hy). apply in_or_app. now left.
+    - apply NoDup_app_iff in N2. destruct N2 as (_ & _ & N6). apply (N6 y Ho Hy). }
+  assert (Oth : forall v y, v <> u -> In y (ports w sd v) -> mem y olds = false).
+  { intros v y N HI. apply mem_false. intro Ho. assert (In y (ports w sd u)) by (rewrite EL; apply in_or_app; right; apply in_or_app; now left).
+    apply A in HI. apply A in H0. congruence. }
+  constructor.
+  - intros v y. rewrite ports_upd_ports. change (ptr (upd_ports (undock_all w sd olds) sd u (l1 ++ ys ++ l2)) sd y) with (ptr (undock_all w sd olds) sd y).
+    rewrite undock_all_ptr. destruct (v =? u) eqn:Ev.
+    + apply Nat.eqb_eq in Ev. subst v. intro HI.
+      destruct (in_dec (fun a b => ltac:(destruct (obj_eqb a b) eqn:Q; [left; now apply obj_eqb_eq | right; now apply obj_eqb_neq])) y ys) as [I|NI]; [now right|].
+      left. assert (Hy : In y (l1 ++ l2)). { apply in_app_or in HI. destruct HI as [HI|HI]; [apply in_or_app; now left|].
+        apply in_app_or in HI. destruct HI as [HI|HI]; [contradiction | apply in_or_app; now right]. }
+      rewrite (Old y Hy). apply A. rewrite EL. apply in_app_or in Hy. destruct Hy; apply in_or_app; [now left | right; apply in_or_app; now right].
+    + apply Nat.eqb_neq in Ev. rewrite Po. intro HI. left. rewrite (Oth v y Ev HI). now apply A.
+  - intros v n. change (ptr (upd_ports (undock_all w sd olds) sd u (l1 ++ ys ++ l2)) sd (S_ n)) with (ptr (undock_all w sd olds) sd (S_ n)).
+    rewrite undock_all_ptr, ports_upd_ports. destruct (mem (S_ n) olds) eqn:Em; [discriminate|].
+    intro Q. apply B in Q. destruct (v =? u) eqn:Ev; [|now rewrite Po].
+    apply Nat.eqb_eq in Ev. subst v. rewrite EL in Q. apply mem_false in Em.
+    apply in_app_or in Q. destruct Q as [Q|Q]; [apply in_or_app; now left|].
+    apply in_app_or in Q. destruct Q as [Q|Q]; [contradiction | apply in_or_app; right; apply in_or_app; now right].
+  - intro v. rewrite ports_upd_ports. destruct (v =? u); [|rewrite Po; apply C].
+    apply NoDup_app_iff in NDl'. destruct NDl' as (N1 & N2 & N3).
+    apply NoDup_app_iff. split; [assumption|]. split.
+    + apply NoDup_app_iff. repeat split; auto. intros x Hx Hx'. apply (Dis x Hx). apply in_or_app. now right.
+    + intros x Hx Hx'. apply in_app_or in Hx'. destruct Hx' as [Hx'|Hx']; [|now apply (N3 x)].
+      apply (Dis x Hx'). apply in_or_app. now left.
+  - intros v N. rewrite ports_upd_ports_neq by assumption. rewrite Po. destruct St as [_ _ _ S4 S5]. cbn [psize pfixed upd_ports]. rewrite S4, S5. apply D.
+  - intros v y. rewrite ports_upd_ports. intro HI. change (obj_okP (undock_all w sd olds) y). eapply stat_okP; [exact St|].
+    destruct (v =? u).
+    + apply in_app_or in HI. destruct HI as [HI|HI]; [apply (E u); rewrite EL; apply in_or_app; now left|].
+      apply in_app_or in HI. destruct HI as [HI|HI]; [now apply Oky|]. apply (E u). rewrite EL. apply in_or_app. right. apply in_or_app. now right.
+    + rewrite Po in HI. eapply E; eauto.
+  - intros n L. change (ptr (undock_all w sd olds) sd (S_ n) = None). rewrite undock_all_ptr.
+    destruct (mem (S_ n) olds); [reflexivity|]. apply F. destruct St as [_ S2 _ _ _]. simpl in L. rewrite S2 in L. exact L.
+  - intros v L. rewrite ports_upd_ports. destruct St as [S1 _ _ _ _]. simpl in L. rewrite S1 in L.
+    destruct (v =? u) eqn:Ev; [apply Nat.eqb_eq in Ev; lia|]. rewrite Po. now apply G.
+  - intros y v. change (ptr (undock_all w sd olds) sd y = Some v -> v < nunits (undock_all w sd olds)).
+    rewrite undock_all_ptr. destruct St as [S1 _ _ _ _]. rewrite S1. destruct (mem y olds); [discriminate | apply H].
+  - intros y HI. rewrite ports_upd_ports_eq. apply in_or_app. right. apply in_or_app. now left.
+Qed.
+End Side.
+
+(* ================================================================ extensionally equal worlds *)
+Record weq (w w' : world) : Prop := mkWeq {
+  Q_ports : forall s v, ports w' s v = ports w s v;
+  Q_ptr : forall s y, ptr w' s y = ptr w s y;
+  Q_psize : forall s v, psize w' s v = psize w s v;
+  Q_pfixed : forall s v, pfixed w' s v = pfixed w s v;
+  Q_fresh : fresh w' = fresh w; Q_nreal : nreal w' = nreal w; Q_nunits : nunits w' = nunits w }.
+Lemma weq_refl w : weq w w. Proof. constructor; auto. Qed.
+Lemma redock_comm sd u x L w : weq (redock (upd_ports w sd u L) sd u x) (upd_ports (redock w sd u x) sd u L).
+Proof.
+  unfold redock. cbn [ptr upd_ports]. destruct (ptr w sd x) as [v|].
+  2:{ constructor; intros; reflexivity. }
+  destruct (v =? u) eqn:E; [apply weq_refl|].
+  rewrite ports_upd_ports, E.
+  destruct (mem x (ports w sd v)); [|constructor; intros; reflexivity].
+  unfold vacate, new_missing. cbn [ports upd_ports upd_ptr bump_fresh undock dock ptr fresh nreal nunits psize pfixed].
+  rewrite side_eqb_refl, E. cbn [andb].
+  destruct (index_of x (ports w sd v)) as [k|].
+  - constructor; intros; cbn [ports upd_ports upd_ptr bump_fresh undock dock ptr fresh nreal nunits psize pfixed]; try reflexivity.
+    destruct (side_eqb s sd) eqn:Es; cbn [andb]; [|reflexivity].
+    destruct (v0 =? u) eqn:E1; destruct (v0 =? v) eqn:E2; try reflexivity.
+    apply Nat.eqb_eq in E1, E2. subst. rewrite Nat.eqb_refl in E. discriminate.
+  - constructor; intros; reflexivity.
+Qed.
+
+Lemma weq_InvS sd w w' : weq w w' -> InvS sd w -> InvS sd w'.
+Proof.
+  intros [A B C D E F G] [a b c d e f g h]. constructor.
+  - intros u x. rewrite A, B. apply a.
+  - intros u n. rewrite A, B. apply b.
+  - intro u. rewrite A. apply c.
+  - intro u. rewrite A, C, D. apply d.
+  - intros u x. rewrite A. intro HI. apply e in HI. destruct x; simpl in *; congruence.
+  - intro n. rewrite F, B. apply f.
+  - intro u. rewrite G, A. apply g.
+  - intros x u. rewrite B, G. apply h.
+Qed.
+Lemma weq_frame sd w0 w w' : weq w w' -> frame sd w0 w -> frame sd w0 w'.
+Proof.
+  intros [A B C D E F G] [a b c d e f g h]. constructor; intros; rewrite ?A, ?B, ?C, ?D, ?E, ?F, ?G; auto.
+Qed.
+Lemma weq_stat w0 w w' : weq w w' -> stat w0 w -> stat w0 w'.
+Proof.
+  intros [A B C D E F G] [a b c d e]. constructor; intros; rewrite ?A, ?B, ?C, ?D, ?E, ?F, ?G; auto.
+Qed.
+
+(* ================================================================ the list methods *)
+Section Side2.
+Variable sd : side.
+
+Definition good (w : world) (r : outcome) : Prop :=
+  InvS sd (fst r) /\ frame (other sd) w (fst r) /\ stat w (fst r).
+Lemma good_same w e : InvS sd w -> good w (w, e).
+Proof. intro H. split; [exact H | split; [apply frame_refl | apply stat_refl]]. Qed.
+
+Lemma new_missing_InvS w u w1 m : InvS sd w -> u < nunits w -> new_missing w sd u = (w1, m) ->
+  InvS sd w1 /\ obj_okP w1 m /\ (forall v, ~ In m (ports w1 sd v)) /\ stat w w1 /\ frame (other sd) w w1.
+Proof.
+  intros [A B C D E F G H] Hu NM.
+  pose proof (frame_new_missing sd w u) as FN. rewrite NM in FN. simpl in FN.
+  destruct (new_missing_spec _ _ _ _ _ NM) as (Hm & Hp & Hpm & Hpo & Hf & Hr & Hn & Hs & Hfx).
+  assert (Fm : forall v y, In y (ports w sd v) -> y <> m).
+  { intros v y HI Q. subst y m. apply E in HI. simpl in HI. lia. }
+  split; [|split; [|split; [|split]]].
+  - constructor.
+    + intros v y. rewrite Hp. intro HI. rewrite Hpo; [now apply A | eapply Fm; eauto].
+    + intros v n. rewrite Hp, Hpo; [apply B | subst m; discriminate].
+    + intro v. rewrite Hp. apply C.
+    + intro v. rewrite Hp, Hs, Hfx. apply D.
+    + intros v y. rewrite Hp. intro HI. eapply okP_mono; [| |eapply E; eauto]; lia.
+    + intros n L. rewrite Hpo; [apply F; lia | subst m; discriminate].
+    + intros v L. rewrite Hp. apply G. lia.
+    + intros y v. destruct (obj_dec y m) as [->|N].
+      * rewrite Hpm. intro Q. inversion Q. subst. lia.
+      * rewrite Hpo, Hn by assumption. apply H.
+  - subst m. simpl. lia.
+  - intros v HI. rewrite Hp in HI. eapply Fm; eauto.
+  - constructor; auto. lia.
+  - exact FN.
+Qed.
+
+(* common core of item assignment, slice assignment: the segment [olds] of u's list is undocked and
+   replaced by [ys], then the objects in R (which include ys) are redocked *)
+Lemma place_J u w l1 olds l2 ys R :
+  InvS sd w -> u < nunits w -> ports w sd u = l1 ++ olds ++ l2 ->
+  NoDup ys -> (forall y, In y ys -> ~ In y (l1 ++ l2)) -> (forall y, In y ys -> obj_okP w y) ->
+  (forall y, In y ys -> In y R) -> (forall y, In y R -> In y (l1 ++ ys ++ l2)) ->
+  let w4 := fold_left (fun w x => redock w sd u x) R (upd_ports (undock_all w sd olds) sd u (l1 ++ ys ++ l2)) in
+  J sd u [] w4 /\ frame (other sd) w w4 /\ stat w w4 /\ ports w4 sd u = l1 ++ ys ++ l2.
+Proof.
+  intros HI Hu EL ND Dis Ok S1 S2.
+  pose proof (slice_J sd u w l1 olds l2 ys HI Hu EL ND Dis Ok) as J0.
+  destruct (undock_all_misc sd olds w) as (Po & St & Fr & Frm).
+  set (w3 := upd_ports (undock_all w sd olds) sd u (l1 ++ ys ++ l2)) in *.
+  assert (P3 : ports w3 sd u = l1 ++ ys ++ l2) by apply ports_upd_ports_eq.
+  assert (J1 : J sd u R w3) by (eapply J_weaken; [exact J0 | exact S1 | intros y Hy; rewrite P3; auto]).
+  assert (St3 : stat w w3) by (destruct St; constructor; auto).
+  destruct (redock_all_J sd u R w3 J1) as (J2 & Fr2 & St2 & P2).
+  - destruct St3 as [A _ _ _ _]. lia.
+  - intros y Hy. eapply J_ok; [exact J1|]. rewrite P3. eauto.
+  - split; [exact J2|]. split; [|split].
+    + eapply frame_trans; [|exact Fr2]. eapply frame_trans; [exact Frm | apply frame_upd_ports].
+    + eapply stat_trans; eauto.
+    + etransitivity; [exact P2 | exact P3].
+Qed.
+
+Lemma set_stream_obj u w i x :
+  InvS sd w -> u < nunits w -> obj_okP w x -> pre_set w sd u i (RObj x) = true ->
+  good w (set_stream w sd u i (RObj x)).
+Proof.
+  intros HI Hu Hx Pre. unfold set_stream, as_stream. unfold pre_set in Pre.
+  set (l := ports w sd u) in *.
+  destruct (norm_index i (length l)) as [k|] eqn:Ek.
+  - pose proof (norm_index_lt _ _ _ Ek) as Lk.
+    destruct (nth_split' l k x Lk) as (l1 & l2 & EL & L1).
+    set (old := nth k l x) in *.
+    assert (Dis : ~ In x (l1 ++ l2)).
+    { pose proof (I_nodup _ _ HI u) as ND. fold l in ND. rewrite EL in ND.
+      destruct (index_of x l) as [j|] eqn:Ej.
+      - apply Nat.eqb_eq in Pre. subst j. destruct (index_of_split _ _ _ Ej) as (a1 & a2 & EA & LA & _).
+        assert (old = x). { unfold old. rewrite EA, <- LA. apply nth_app_mid. }
+        rewrite H in ND. apply NoDup_remove_2 in ND. exact ND.
+      - apply index_of_None in Ej. intro Q. apply Ej. rewrite EL. apply in_app_or in Q. apply in_or_app. simpl. tauto. }
+    destruct (place_J u w l1 [old] l2 [x] [x] HI Hu) as (J4 & Fr4 & St4 & P4); auto.
+    + constructor; [intros []|constructor].
+    + intros y [<-|[]]. exact Dis.
+    + intros y [<-|[]]. exact Hx.
+    + intros y [<-|[]]. apply in_or_app. right. now left.
+    + unfold undock_all in *. cbn [fold_left] in *.
+      destruct (redock_misc sd u x (undock w sd old)) as (_ & _ & Pu).
+      assert (EQ : upd (ports (redock (undock w sd old) sd u x) sd u) k x = l1 ++ [x] ++ l2).
+      { rewrite Pu. change (ports (undock w sd old) sd u) with l. rewrite EL at 1. rewrite <- L1. apply upd_app. }
+      rewrite EQ.
+      pose proof (redock_comm sd u x (l1 ++ [x] ++ l2) (undock w sd old)) as WQ.
+      unfold ok, good. simpl fst.
+      split; [|split].
+      * eapply weq_InvS; [exact WQ|]. eapply J_Inv; [exact J4|].
+        rewrite P4. destruct St4 as [_ _ _ S4 S5]. rewrite S4, S5. intro Fx.
+        rewrite <- (I_len _ _ HI u Fx). fold l. rewrite EL. rewrite !app_length. reflexivity.
+      * eapply weq_frame; eauto.
+      * eapply weq_stat; eauto.
+  - destruct ((Z.of_nat (length l) <=? i)%Z && negb (pfixed w sd u)) eqn:Ec; [|apply good_same; exact HI].
+    apply andb_true_iff in Ec. destruct Ec as [_ Nf]. apply negb_true_iff in Nf.
+    assert (Dis : ~ In x l).
+    { destruct (index_of x l) eqn:Ej; [discriminate|]. now apply index_of_None in Ej. }
+    destruct (place_J u w l [] [] [x] [x] HI Hu) as (J4 & Fr4 & St4 & P4); auto.
+    + fold l. now rewrite app_nil_r.
+    + constructor; [intros []|constructor].
+    + intros y [<-|[]]. now rewrite app_nil_r.
+    + intros y [<-|[]]. exact Hx.
+    + intros y [<-|[]]. apply in_or_app. right. now left.
+    + unfold undock_all in *. cbn [fold_left] in *.
+      destruct (redock_misc sd u x w) as (_ & _ & Pu). rewrite Pu. fold l.
+      pose proof (redock_comm sd u x (l ++ [x] ++ []) w) as WQ.
+      replace (l ++ [x]) with (l ++ [x] ++ []) by reflexivity.
+      unfold ok, good. simpl fst.
+      split; [|split].
+      * eapply weq_InvS; [exact WQ|]. eapply J_Inv; [exact J4|].
+        destruct St4 as [_ _ _ S4 S5]. rewrite S5, Nf. discriminate.
+      * eapply weq_frame; eauto.
+      * eapply weq_stat; eauto.
+Qed.
+End Side2.
+
+Section Side3.
+Variable sd : side.
+Notation good := (good sd).
+
+Definition rarg_okP (w : world) (a : rarg) : Prop := match a with RObj x => obj_okP w x | _ => True end.
+
+Lemma good_trans w w1 r : stat w w1 -> frame (other sd) w w1 -> good w1 r -> good w r.
+Proof.
+  intros St Fr (A & B & C). split; [exact A|]. split; [eapply frame_trans; eauto | eapply stat_trans; eauto].
+Qed.
+
+Lemma index_of_notin x l : (forall y, In y l -> y <> x) -> index_of x l = None.
+Proof. intro H. apply index_of_None. intro HI. now apply (H x HI). Qed.
+
+Lemma set_stream_good u w i a :
+  InvS sd w -> u < nunits w -> rarg_okP w a -> pre_set w sd u i a = true ->
+  good w (set_stream w sd u i a).
+Proof.
+  intros HI Hu Ha Pre. destruct a as [x| |].
+  - now apply set_stream_obj.
+  - unfold set_stream, as_stream. destruct (new_missing w sd u) as [w1 m] eqn:NM.
+    destruct (new_missing_InvS sd w u w1 m HI Hu NM) as (I1 & Om & Nm & St & Fr).
+    change (good w (set_stream w1 sd u i (RObj m))).
+    eapply good_trans; [exact St | exact Fr |].
+    apply set_stream_obj; auto.
+    + destruct St as [A _ _ _ _]. lia.
+    + unfold pre_set. rewrite (proj2 (index_of_None m (ports w1 sd u)) (Nm u)). reflexivity.
+  - unfold set_stream, as_stream. apply good_same. exact HI.
+Qed.
+
+Lemma replace_good u w a b :
+  InvS sd w -> u < nunits w -> rarg_okP w b -> pre_replace w sd u a b = true ->
+  good w (replace w sd u a b).
+Proof.
+  intros HI Hu Hb Pre. unfold replace. unfold pre_replace in Pre.
+  destruct a as [x| |]; try (apply good_same; exact HI).
+  destruct (index_of x (ports w sd u)) as [k|]; [|apply good_same; exact HI].
+  now apply set_stream_good.
+Qed.
+
+Lemma remove_good u w a : InvS sd w -> u < nunits w -> good w (remove w sd u a).
+Proof.
+  intros HI Hu. unfold remove. destruct (new_missing w sd u) as [w1 m] eqn:NM.
+  destruct (new_missing_InvS sd w u w1 m HI Hu NM) as (I1 & Om & Nm & St & Fr).
+  eapply good_trans; [exact St | exact Fr |].
+  apply replace_good; auto.
+  - destruct St as [A _ _ _ _]. lia.
+  - unfold pre_replace. destruct a as [x| |]; auto.
+    destruct (index_of x (ports w1 sd u)); auto.
+    unfold pre_set. rewrite (proj2 (index_of_None m (ports w1 sd u)) (Nm u)). reflexivity.
+Qed.
+
+Lemma disconnect_side_good w a : InvS sd w -> good w (disconnect_side w sd a).
+Proof.
+  intro HI. unfold disconnect_side. destruct a as [x| |]; try (apply good_same; exact HI).
+  destruct (ptr w sd x) as [v|] eqn:P; [|apply good_same; exact HI].
+  apply remove_good; auto. eapply I_uptr; eauto.
+Qed.
+
+Lemma remove_nth_app (l1 l2 : list obj) x : remove_nth (length l1) (l1 ++ x :: l2) = l1 ++ l2.
+Proof. induction l1; simpl; [reflexivity | now rewrite IHl1]. Qed.
+
+Lemma pop_good u w i : InvS sd w -> u < nunits w -> good w (pop true w sd u i).
+Proof.
+  intros HI Hu. unfold pop. set (l := ports w sd u).
+  destruct (pfixed w sd u) eqn:Fx.
+  - destruct (norm_index i (length l)) as [k|]; [|apply good_same; exact HI].
+    destruct (new_missing w sd u) as [w1 m] eqn:NM.
+    destruct (new_missing_InvS sd w u w1 m HI Hu NM) as (I1 & Om & Nm & St & Fr).
+    eapply good_trans; [exact St | exact Fr |].
+    apply replace_good; auto.
+    + destruct St as [A _ _ _ _]. lia.
+    + unfold pre_replace. destruct (index_of (nth k l (M_ 0)) (ports w1 sd u)); auto.
+      unfold pre_set. rewrite (proj2 (index_of_None m (ports w1 sd u)) (Nm u)). reflexivity.
+  - destruct (norm_index i (length l)) as [k|] eqn:Ek; [|apply good_same; exact HI].
+    pose proof (norm_index_lt _ _ _ Ek) as Lk.
+    destruct (nth_split' l k (M_ 0) Lk) as (l1 & l2 & EL & L1).
+    set (x := nth k l (M_ 0)) in *.
+    pose proof (slice_J sd u w l1 [x] l2 [] HI Hu EL (NoDup_nil _)) as J0.
+    assert (J1 : J sd u [] (upd_ports (undock_all w sd [x]) sd u (l1 ++ [] ++ l2))) by (apply J0; intros y []).
+    unfold ok, good. simpl fst.
+    assert (EQ : remove_nth k l = l1 ++ [] ++ l2) by (rewrite EL at 1; rewrite <- L1; apply remove_nth_app).
+    rewrite EQ.
+    change (undock (upd_ports w sd u (l1 ++ [] ++ l2)) sd x) with (upd_ports (undock_all w sd [x]) sd u (l1 ++ [] ++ l2)).
+    split; [|split].
+    + eapply J_Inv; [exact J1|]. cbn [pfixed upd_ports undock_all fold_left undock upd_ptr]. rewrite Fx. discriminate.
+    + eapply frame_trans; [apply frame_upd_ptr | apply frame_upd_ports].
+    + constructor; auto.
+Qed.
+
+Lemma insert_stream_good u w i a :
+  InvS sd w -> u < nunits w -> rarg_okP w a -> pre_insert w sd u a = true ->
+  good w (insert_stream w sd u i a).
+Proof.
+  intros HI Hu Ha Pre. unfold insert_stream. unfold pre_insert in Pre.
+  destruct (pfixed w sd u) eqn:Fx; [apply good_same; exact HI|]. simpl in Pre.
+  destruct a as [x| |]; try (apply good_same; exact HI).
+  destruct (ptr w sd x) eqn:P; [discriminate|]. simpl in Ha.
+  set (w1 := dock (undock w sd x) sd u x). set (l := ports w1 sd u).
+  assert (El : l = ports w sd u) by reflexivity.
+  set (k := match i with Some i0 => clampZ (Some i0) (length l) 0 | None => length l end).
+  assert (Nx : forall v, ~ In x (ports w sd v)).
+  { intros v Q. apply (I_ptr _ _ HI) in Q. congruence. }
+  pose proof (firstn_skipn k l) as Sp.
+  assert (EL : ports w sd u = firstn k l ++ [] ++ skipn k l) by (rewrite <- El; symmetry; exact Sp).
+  pose proof (slice_J sd u w (firstn k l) [] (skipn k l) [x] HI Hu EL) as J0.
+  assert (J1 : J sd u [x] (upd_ports w sd u (firstn k l ++ [x] ++ skipn k l))).
+  { apply J0.
+    - constructor; [intros []|constructor].
+    - intros y [<-|[]]. rewrite Sp, El. apply Nx.
+    - intros y [<-|[]]. exact Ha. }
+  assert (J2 : J sd u [] (dock (upd_ports w sd u (firstn k l ++ [x] ++ skipn k l)) sd u x)).
+  { apply dock_J; auto. intros v N. rewrite ports_upd_ports_neq by assumption. apply Nx. }
+  unfold ok, good. simpl fst. unfold insert_at.
+  assert (WQ : weq (dock (upd_ports w sd u (firstn k l ++ [x] ++ skipn k l)) sd u x)
+                   (upd_ports w1 sd u (firstn k l ++ x :: skipn k l))).
+  { constructor; intros; try reflexivity.
+    unfold w1, dock, undock, upd_ptr, upd_ports. cbn [ptr].
+    destruct (side_eqb s sd && obj_eqb y x); reflexivity. }
+  split; [|split].
+  - eapply weq_InvS; [exact WQ|]. eapply J_Inv; [exact J2|].
+    cbn [pfixed dock upd_ptr upd_ports]. rewrite Fx. discriminate.
+  - eapply frame_trans; [|apply frame_upd_ports]. unfold w1, dock, undock.
+    eapply frame_trans; apply frame_upd_ptr.
+  - constructor; auto.
+Qed.
+
+Lemma insert_stream_ptr u w i a y :
+  (forall x, a = RObj x -> y <> x) ->
+  ptr (fst (insert_stream w sd u i a)) sd y = ptr w sd y.
+Proof.
+  intro N. unfold insert_stream. destruct (pfixed w sd u); [reflexivity|].
+  destruct a as [x| |]; try reflexivity. simpl fst.
+  unfold dock, undock. cbn [ptr upd_ports]. rewrite !ptr_upd_ptr.
+  specialize (N x eq_refl). apply obj_eqb_neq in N. now rewrite N.
+Qed.
+
+Lemma extend_streams_good u xs : forall w,
+  InvS sd w -> u < nunits w -> pfixed w sd u = false -> (forall a, In a xs -> rarg_okP w a) ->
+  NoDup (before_error xs) -> (forall x, In x (before_error xs) -> ptr w sd x = None) ->
+  good w (extend_streams w sd u xs).
+Proof.
+  induction xs as [|a xs IH]; intros w HI Hu Fx Ok ND Pn; simpl.
+  - apply good_same. exact HI.
+  - assert (G1 : good w (insert_stream w sd u None a)).
+    { apply insert_stream_good; auto.
+      - apply Ok. now left.
+      - unfold pre_insert. rewrite Fx. simpl. destruct a as [x| |]; auto. rewrite Pn; [reflexivity | now left]. }
+    destruct (insert_stream w sd u None a) as [w1 [e|]] eqn:E1; [exact G1|].
+    simpl andthen. destruct G1 as (I1 & Fr & St). simpl fst in *.
+    destruct a as [x| |]; try (unfold insert_stream in E1; rewrite Fx in E1; discriminate).
+    simpl in ND, Pn. inversion ND as [|? ? NI ND']; subst.
+    eapply good_trans; [exact St | exact Fr |].
+    apply IH; auto.
+    + destruct St as [A _ _ _ _]. lia.
+    + destruct St as [_ _ _ _ S5]. rewrite S5. exact Fx.
+    + intros b Hb. specialize (Ok b (or_intror Hb)). destruct b; simpl in *; auto. eapply stat_okP; eauto.
+    + intros y Hy. replace w1 with (fst (insert_stream w sd u None (RObj x))) by (rewrite E1; reflexivity).
+      rewrite insert_stream_ptr; [apply Pn; now right|]. intros x0 Q. inversion Q; subst. intro; subst; contradiction.
+Qed.
+
+Lemma clear_var_good u w : InvS sd w -> u < nunits w -> pfixed w sd u = false -> good w (clear w sd u).
+Proof.
+  intros HI Hu Fx. unfold clear. rewrite Fx. unfold ok, good. simpl fst.
+  pose proof (slice_J sd u w [] (ports w sd u) [] [] HI Hu) as J0.
+  assert (J1 : J sd u [] (upd_ports (undock_all w sd (ports w sd u)) sd u ([] ++ [] ++ []))).
+  { apply J0; [now rewrite app_nil_r | constructor | intros y [] | intros y []]. }
+  destruct (undock_all_misc sd (ports w sd u) w) as (Po & St & Fr & Frm).
+  split; [|split].
+  - eapply J_Inv; [exact J1|]. cbn [pfixed upd_ports]. destruct St as [_ _ _ _ S5]. rewrite S5, Fx. discriminate.
+  - eapply frame_trans; [exact Frm | apply frame_upd_ports].
+  - destruct St. constructor; auto.
+Qed.
+End Side3.
+
+Section Side4.
+Variable sd : side.
+Notation good := (good sd).
+
+Lemma new_missing_J u R w v w1 m : J sd u R w -> v < nunits w -> new_missing w sd v = (w1, m) ->
+  J sd u R w1 /\ obj_okP w1 m /\ (forall v', ~ In m (ports w1 sd v')) /\ stat w w1 /\ frame (other sd) w w1
+  /\ ptr w1 sd m = Some v /\ (forall y, y <> m -> ptr w1 sd y = ptr w sd y) /\ (forall v', ports w1 sd v' = ports w sd v')
+  /\ m = M_ (fresh w).
+Proof.
+  intros [A B C D E F G H K] Hv NM.
+  pose proof (frame_new_missing sd w v) as FN. rewrite NM in FN. simpl in FN.
+  destruct (new_missing_spec _ _ _ _ _ NM) as (Hm & Hp & Hpm & Hpo & Hf & Hr & Hn & Hs & Hfx).
+  assert (Fm : forall v' y, In y (ports w sd v') -> y <> m).
+  { intros v' y HI Q. subst y m. apply E in HI. simpl in HI. lia. }
+  split; [|split; [|split; [|split; [|split; [|split; [|split; [|split]]]]]]]; auto.
+  - constructor.
+    + intros v' y. rewrite Hp. intro HI. rewrite Hpo; [now apply A | eapply Fm; eauto].
+    + intros v' n. rewrite Hp, Hpo; [apply B | subst m; discriminate].
+    + intro v'. rewrite Hp. apply C.
+    + intros v' N. rewrite Hp, Hs, Hfx. now apply D.
+    + intros v' y. rewrite Hp. intro HI. eapply okP_mono; [| |eapply E; eauto]; lia.
+    + intros n L. rewrite Hpo; [apply F; lia | subst m; discriminate].
+    + intros v' L. rewrite Hp. apply G. lia.
+    + intros y v'. destruct (obj_dec y m) as [->|N].
+      * rewrite Hpm. intro Q. inversion Q. subst. lia.
+      * rewrite Hpo, Hn by assumption. apply H.
+    + intros y HI. rewrite Hp. now apply K.
+  - subst m. simpl. lia.
+  - intros v' HI. rewrite Hp in HI. eapply Fm; eauto.
+  - constructor; auto. lia.
+Qed.
+
+Definition pend (u : nat) (w : world) (m : obj) : Prop :=
+  ptr w sd m = Some u /\ obj_okP w m /\ (forall v, ~ In m (ports w sd v)).
+
+Lemma pend_news u n : forall w Ms w5 ms, J sd u [] w -> u < nunits w -> NoDup Ms ->
+  (forall m, In m Ms -> pend u w m) -> new_missings w sd u n = (w5, ms) ->
+  J sd u [] w5 /\ NoDup (Ms ++ ms) /\ (forall m, In m (Ms ++ ms) -> pend u w5 m) /\ length ms = n /\
+  frame (other sd) w w5 /\ stat w w5 /\ (forall v, ports w5 sd v = ports w sd v).
+Proof.
+  induction n as [|n IH]; intros w Ms w5 ms HJ Hu ND Pm NM; cbn [new_missings] in NM.
+  - inversion NM; subst. rewrite app_nil_r.
+    split; [exact HJ|]. split; [exact ND|]. split; [exact Pm|]. split; [reflexivity|].
+    split; [apply frame_refl|]. split; [apply stat_refl | reflexivity].
+  - destruct (new_missing w sd u) as [w1 m] eqn:E1. destruct (new_missings w1 sd u n) as [w2 ms'] eqn:E2.
+    inversion NM; subst; clear NM.
+    destruct (new_missing_J u [] w u w1 m HJ Hu E1) as (J1 & Om & Nm & St & Fr & Pm1 & Po1 & Pp1 & Em).
+    assert (Mm : forall y, In y Ms -> y <> m).
+    { intros y Hy Q. subst y. destruct (Pm _ Hy) as (_ & O & _). rewrite Em in O. simpl in O. lia. }
+    destruct (IH w1 (Ms ++ [m]) w5 ms' J1) as (J5 & ND5 & P5 & L5 & Fr5 & St5 & Pp5); auto.
+    + destruct St as [A _ _ _ _]. lia.
+    + apply NoDup_app_iff. split; [exact ND|]. split; [constructor; [intros []|constructor]|].
+      intros y Hy [Q|[]]. now apply (Mm y).
+    + intros y Hy. apply in_app_or in Hy. destruct Hy as [Hy|[<-|[]]].
+      * destruct (Pm _ Hy) as (P1 & P2 & P3). split; [|split].
+        -- rewrite Po1; auto.
+        -- eapply stat_okP; eauto.
+        -- intro v. rewrite Pp1. apply P3.
+      * split; [exact Pm1 | split; [exact Om | exact Nm]].
+    + rewrite <- app_assoc in ND5, P5. simpl in ND5, P5.
+      split; [exact J5|]. split; [exact ND5|]. split; [exact P5|]. split; [simpl; congruence|].
+      split; [eapply frame_trans; eauto|]. split; [eapply stat_trans; eauto|].
+      intro v. rewrite Pp5. apply Pp1.
+Qed.
+
+Lemma pend_flush u w Ms : J sd u [] w -> u < nunits w -> NoDup Ms -> (forall m, In m Ms -> pend u w m) ->
+  J sd u [] (upd_ports w sd u (ports w sd u ++ Ms)).
+Proof.
+  intros [A B C D E F G H K] Hu ND Pm. constructor.
+  - intros v y. rewrite ports_upd_ports. destruct (v =? u) eqn:Ev.
+    + apply Nat.eqb_eq in Ev. subst v. intro HI. left. apply in_app_or in HI. destruct HI as [HI|HI].
+      * destruct (A u y HI) as [Q|[_ []]]. exact Q.
+      * apply Pm. exact HI.
+    + apply A.
+  - intros v n Q. apply B in Q. rewrite ports_upd_ports. destruct (v =? u) eqn:Ev; [|exact Q].
+    apply Nat.eqb_eq in Ev. subst v. apply in_or_app. now left.
+  - intro v. rewrite ports_upd_ports. destruct (v =? u); [|apply C].
+    apply NoDup_app_iff. split; [apply C|]. split; [exact ND|].
+    intros y Hy Hm. destruct (Pm y Hm) as (_ & _ & N). now apply (N u).
+  - intros v N. rewrite ports_upd_ports_neq by assumption. now apply D.
+  - intros v y. rewrite ports_upd_ports. destruct (v =? u); [|apply E].
+    intro HI. apply in_app_or in HI. destruct HI as [HI|HI]; [eapply E; eauto | apply Pm; exact HI].
+  - exact F.
+  - intros v L. rewrite ports_upd_ports. simpl in L. destruct (v =? u) eqn:Ev; [apply Nat.eqb_eq in Ev; lia | now apply G].
+  - exact H.
+  - intros y [].
+Qed.
+
+Lemma skipn_skipn' {A} x : forall y (l : list A), skipn x (skipn y l) = skipn (y + x) l.
+Proof.
+  induction y as [|y IH]; intro l; simpl; [reflexivity|].
+  destruct l; [now rewrite !skipn_nil | apply IH].
+Qed.
+Lemma slice_split (l : list obj) a b : a <= b ->
+  l = firstn a l ++ firstn (b - a) (skipn a l) ++ skipn b l.
+Proof.
+  intro H. rewrite <- (firstn_skipn a l) at 1. f_equal.
+  rewrite <- (firstn_skipn (b - a) (skipn a l)) at 1. f_equal.
+  rewrite skipn_skipn'. f_equal. lia.
+Qed.
+
+Lemma as_streams_spec u xs : forall w,
+  InvS sd w -> u < nunits w -> (forall a, In a xs -> rarg_okP w a) ->
+  InvS sd (fst (as_streams w sd u xs)) /\ stat w (fst (as_streams w sd u xs)) /\
+  frame (other sd) w (fst (as_streams w sd u xs)) /\
+  (forall v, ports (fst (as_streams w sd u xs)) sd v = ports w sd v) /\
+  match snd (as_streams w sd u xs) with
+  | Err _ => robj_list xs = None
+  | Ok ys => exists os, robj_list xs = Some os /\ length ys = length os /\
+      (forall y, In y ys -> obj_okP (fst (as_streams w sd u xs)) y) /\
+      (NoDup (somes os) -> NoDup ys) /\
+      (forall y, In y ys -> In y (somes os) \/ exists n, y = M_ n /\ fresh w <= n)
+  end.
+Proof.
+  induction xs as [|a xs IH]; intros w HI Hu Ok; simpl.
+  - split; [exact HI|]. split; [apply stat_refl|]. split; [apply frame_refl|]. split; [reflexivity|].
+    exists []. simpl. repeat split; auto. intros y [].
+  - destruct a as [x| |]; cbn [as_streams as_stream].
+    + specialize (IH w HI Hu (fun a H => Ok a (or_intror H))).
+      destruct (as_streams w sd u xs) as [w2 [ys|e]] eqn:E2; simpl in *.
+      * destruct IH as (I2 & St & Fr & Pp & os & Eo & Ln & Oky & NDy & Src).
+        split; [exact I2|]. split; [exact St|]. split; [exact Fr|]. split; [exact Pp|].
+        exists (Some x :: os). rewrite Eo. simpl. split; [reflexivity|]. split; [congruence|]. split; [|split].
+        -- intros y [<-|Hy]; [|now apply Oky]. eapply stat_okP; [exact St|]. apply (Ok (RObj x)). now left.
+        -- intro ND. inversion ND as [|? ? NI ND']; subst. constructor; [|now apply NDy].
+           intro Hx. destruct (Src x Hx) as [Q|(n & -> & Ln')]; [contradiction|].
+           specialize (Ok (RObj (M_ n)) (or_introl eq_refl)). simpl in Ok. lia.
+        -- intros y [<-|Hy]; [left; now left|]. destruct (Src y Hy) as [Q|Q]; [left; now right | now right].
+      * destruct IH as (I2 & St & Fr & Pp & Eo). repeat (split; auto). now rewrite Eo.
+    + destruct (new_missing w sd u) as [w1 m] eqn:NM.
+      destruct (new_missing_InvS sd w u w1 m HI Hu NM) as (I1 & Om & Nm & St1 & Fr1).
+      destruct (new_missing_spec _ _ _ _ _ NM) as (Hm & Hp & _ & _ & Hf & _).
+      assert (Hu1 : u < nunits w1) by (destruct St1 as [A _ _ _ _]; lia).
+      assert (Ok1 : forall a, In a xs -> rarg_okP w1 a).
+      { intros b Hb. specialize (Ok b (or_intror Hb)). destruct b; simpl in *; auto. eapply stat_okP; eauto. }
+      specialize (IH w1 I1 Hu1 Ok1).
+      destruct (as_streams w1 sd u xs) as [w2 [ys|e]] eqn:E2; simpl in *.
+      * destruct IH as (I2 & St & Fr & Pp & os & Eo & Ln & Oky & NDy & Src).
+        split; [exact I2|]. split; [eapply stat_trans; eauto|]. split; [eapply frame_trans; eauto|].
+        split; [intro v; rewrite Pp; apply Hp|].
+        exists (None :: os). rewrite Eo. simpl. split; [reflexivity|]. split; [congruence|]. split; [|split].
+        -- intros y [<-|Hy]; [|now apply Oky]. eapply stat_okP; [exact St | exact Om].
+        -- intro ND. constructor; [|now apply NDy].
+           intro Hx. destruct (Src m Hx) as [Q|(n & Q & Ln')].
+           ++ assert (OO : forall y os', robj_list xs = Some os' -> In y (somes os') -> obj_okP w y).
+              { clear - Ok. revert Ok. induction xs as [|b xs IHx]; intros Ok y os' E HI; simpl in E.
+                - inversion E; subst. destruct HI.
+                - destruct b as [z| |]; [| |discriminate].
+                  + destruct (robj_list xs) as [o|]; [|discriminate]. inversion E; subst. simpl in HI.
+                    destruct HI as [<-|HI]; [apply (Ok (RObj z)); right; now left|].
+                    eapply IHx; [|reflexivity|exact HI]. intros a [Ha|Ha]; [apply Ok; now left | apply Ok; right; now right].
+                  + destruct (robj_list xs) as [o|]; [|discriminate]. inversion E; subst. simpl in HI.
+                    eapply IHx; [|reflexivity|exact HI]. intros a [Ha|Ha]; [apply Ok; now left | apply Ok; right; now right]. }
+              specialize (OO m os Eo Q). rewrite Hm in OO. simpl in OO. lia.
+           ++ rewrite Hm in Q. inversion Q. lia.
+        -- intros y [<-|Hy]; [right; exists (fresh w); split; [exact Hm | lia]|].
+           destruct (Src y Hy) as [Q|(n & Q & Ln')]; [now left | right; exists n; split; [exact Q | lia]].
+      * destruct IH as (I2 & St & Fr & Pp & Eo).
+        split; [exact I2|]. split; [eapply stat_trans; eauto|]. split; [eapply frame_trans; eauto|].
+        split; [intro v; rewrite Pp; apply Hp | now rewrite Eo].
+    + split; [exact HI|]. split; [apply stat_refl|]. split; [apply frame_refl|]. split; reflexivity.
+Qed.
+End Side4.
+
+Section Side5.
+Variable sd : side.
+Notation good := (good sd).
+
+Lemma set_streams_good u w lo hi xs :
+  InvS sd w -> u < nunits w -> (forall a, In a xs -> rarg_okP w a) ->
+  pre_slice w sd u lo hi xs = true -> good w (set_streams w sd u lo hi xs).
+Proof.
+  intros HI Hu Ok Pre. unfold set_streams.
+  pose proof (as_streams_spec sd u xs w HI Hu Ok) as S.
+  destruct (as_streams w sd u xs) as [w1 [ys|e]]; simpl in S.
+  2:{ destruct S as (I1 & St & Fr & _). unfold fail, Proofs.good. simpl. auto. }
+  destruct S as (I1 & St1 & Fr1 & Pp & os & Eo & Ln & Oky & NDy & Src).
+  unfold pre_slice in Pre. rewrite Eo in Pre.
+  rewrite <- (Pp u) in Pre. set (l := ports w1 sd u) in *.
+  destruct (slice_bounds lo hi (length l)) as [a b] eqn:Eb.
+  destruct (slice_bounds_ok _ _ _ _ _ Eb) as (Hab & Han & Hbn).
+  apply andb_true_iff in Pre. destruct Pre as [Pre P3]. apply andb_true_iff in Pre. destruct Pre as [P1 P2].
+  apply nodupb_NoDup in P1. rewrite forallb_forall in P2.
+  set (l1 := firstn a l) in *. set (l2 := skipn b l) in *. set (olds := firstn (b - a) (skipn a l)).
+  assert (EL : ports w1 sd u = l1 ++ olds ++ l2) by (apply slice_split; exact Hab).
+  assert (Hu1 : u < nunits w1) by (destruct St1 as [A _ _ _ _]; lia).
+  assert (Dis : forall y, In y ys -> ~ In y (l1 ++ l2)).
+  { intros y Hy HIn. destruct (Src y Hy) as [Q|(n & -> & Ln')].
+    - specialize (P2 y Q). apply negb_true_iff in P2. apply mem_false in P2. contradiction.
+    - assert (In (M_ n) (ports w sd u)).
+      { rewrite <- Pp. fold l. rewrite (slice_split l a b Hab). fold l1 l2 olds.
+        apply in_app_or in HIn. apply in_or_app. destruct HIn; [now left | right; apply in_or_app; now right]. }
+      apply (I_ok _ _ HI) in H. simpl in H. lia. }
+  change (fold_left (fun w x => undock w sd x) olds w1) with (undock_all w1 sd olds).
+  destruct (place_J sd u w1 l1 olds l2 ys (l1 ++ ys ++ l2) I1 Hu1 EL (NDy P1) Dis Oky) as (J4 & Fr4 & St4 & P4).
+  { intros y Hy. apply in_or_app. right. apply in_or_app. now left. }
+  { auto. }
+  set (w4 := fold_left (fun w x => redock w sd u x) (l1 ++ ys ++ l2)
+                (upd_ports (undock_all w1 sd olds) sd u (l1 ++ ys ++ l2))) in *.
+  assert (Hu4 : u < nunits w4) by (destruct St4 as [A _ _ _ _]; lia).
+  assert (Len : length (l1 ++ ys ++ l2) = length (l1 ++ l2) + length os) by (rewrite !app_length; lia).
+  destruct (pfixed w4 sd u && (length (l1 ++ ys ++ l2) <? psize w4 sd u)) eqn:Pad.
+  - apply andb_true_iff in Pad. destruct Pad as [Fx Lt]. apply Nat.ltb_lt in Lt.
+    destruct (new_missings w4 sd u (psize w4 sd u - length (l1 ++ ys ++ l2))) as [w5 ms] eqn:NM.
+    destruct (pend_news sd u _ w4 [] w5 ms J4 Hu4 (NoDup_nil _) (fun m (H : In m []) => match H with end) NM)
+      as (J5 & ND5 & P5 & L5 & Fr5 & St5 & Pp5).
+    assert (Hu5 : u < nunits w5) by (destruct St5 as [A _ _ _ _]; lia).
+    pose proof (pend_flush sd u w5 ms J5 Hu5 ND5 P5) as J6.
+    unfold ok, Proofs.good. simpl fst. split; [|split].
+    + eapply J_Inv; [exact J6|]. intros _. rewrite ports_upd_ports_eq. cbn [psize upd_ports].
+      rewrite Pp5, P4, app_length, L5. destruct St5 as [_ _ _ S4 _]. rewrite S4. lia.
+    + eapply frame_trans; [exact Fr1|]. eapply frame_trans; [exact Fr4|]. eapply frame_trans; [exact Fr5 | apply frame_upd_ports].
+    + eapply stat_trans; [exact St1|]. eapply stat_trans; [exact St4|]. destruct St5. constructor; auto.
+  - unfold ok, Proofs.good. simpl fst. split; [|split].
+    + eapply J_Inv; [exact J4|]. intro Fx. rewrite Fx in Pad. simpl in Pad. apply Nat.ltb_ge in Pad.
+      rewrite P4. destruct St4 as [_ _ _ S4 S5]. destruct St1 as [_ _ _ S4' S5'].
+      rewrite S5, S5' in Fx. rewrite Fx in P3. simpl in P3. apply Nat.leb_le in P3.
+      rewrite S4, S4' in *. lia.
+    + eapply frame_trans; eauto.
+    + eapply stat_trans; eauto.
+Qed.
+End Side5.
+
+(* ================================================================ both sides together *)
+Definition Good (w : world) (r : outcome) : Prop := Inv (fst r) /\ stat w (fst r).
+
+Lemma other_other sd : other (other sd) = sd.
+Proof. now destruct sd. Qed.
+Lemma InvS_side sd w : Inv w -> InvS sd w /\ InvS (other sd) w.
+Proof. intros [A B]. destruct sd; simpl; auto. Qed.
+Lemma Inv_of sd w : InvS sd w -> InvS (other sd) w -> Inv w.
+Proof. destruct sd; simpl; intros; split; auto. Qed.
+
+Lemma good_Good sd w r : Inv w -> good sd w r -> Good w r.
+Proof.
+  intros HI (A & B & C). split; [|exact C].
+  apply (Inv_of sd); [exact A|]. eapply frame_InvS; [exact B|]. apply (InvS_side sd w HI).
+Qed.
+Lemma Good_same w e : Inv w -> Good w (w, e).
+Proof. intro H. split; [exact H | apply stat_refl]. Qed.
+Lemma Good_andthen w r f : Good w r ->
+  (forall w1, fst r = w1 -> Inv w1 -> stat w w1 -> Good w1 (f w1)) -> Good w (andthen r f).
+Proof.
+  intros [A B] H. destruct r as [w1 [e|]]; simpl in *.
+  - split; assumption.
+  - destruct (H w1 eq_refl A B) as [A' B']. split; [exact A' | eapply stat_trans; eauto].
+Qed.
+
+Lemma rarg_ok_stat w w1 a : stat w w1 -> rarg_okP w a -> rarg_okP w1 a.
+Proof. intros St H. destruct a; simpl in *; auto. eapply stat_okP; eauto. Qed.
+Lemma resolve_ok w a : Inv w -> arg_ok w a = true -> rarg_okP w (resolve w a).
+Proof.
+  intros HI H. destruct a as [x|s u k| |]; [now apply obj_ok_P | | exact I | exact I].
+  unfold resolve. destruct (ports w s u) as [|d t] eqn:E; [exact I|].
+  destruct (InvS_side s w HI) as [IS _]. unfold rarg_okP. apply (I_ok _ _ IS u). rewrite E.
+  apply nth_In. apply Nat.mod_upper_bound. simpl. lia.
+Qed.
+Lemma unit_ok_lt w u : unit_ok w u = true -> u < nunits w.
+Proof. apply Nat.ltb_lt. Qed.
+
+Lemma pre_slice_nil w sd u : pre_slice w sd u None None [] = true.
+Proof.
+  unfold pre_slice, slice_bounds. simpl. rewrite skipn_all. simpl.
+  destruct (pfixed w sd u); reflexivity.
+Qed.
+Lemma robjs_ok sd w v : Inv w -> forall a, In a (robjs (ports w sd v)) -> rarg_okP w a.
+Proof.
+  intros HI a Ha. unfold robjs in Ha. apply in_map_iff in Ha. destruct Ha as (x & <- & Hx). simpl.
+  destruct (InvS_side sd w HI) as [IS _]. eapply I_ok; eauto.
+Qed.
+
+Lemma join_ends_Good ios : forall w, Inv w -> (forall i o, In (i, o) ios -> obj_okP w i) ->
+  pre_join w ios = true -> Good w (join_ends w ios).
+Proof.
+  induction ios as [|[i o] ios IH]; intros w HI Ok Pre; cbn [join_ends pre_join] in *.
+  - now apply Good_same.
+  - destruct (ptr w SIn o) as [v|] eqn:P.
+    + apply andb_true_iff in Pre. destruct Pre as [P1 P2].
+      destruct (InvS_side SIn w HI) as [IS _].
+      apply Good_andthen.
+      * apply (good_Good SIn); auto. apply replace_good; auto. eapply I_uptr; eauto. simpl. eapply Ok. now left.
+      * intros w1 E I1 St. rewrite E in P2. apply IH; auto.
+        intros i' o' H. eapply stat_okP; [exact St|]. eapply Ok. right. exact H.
+    + apply IH; auto. intros i' o' H. eapply Ok. right. exact H.
+Qed.
+
+Lemma filter_real_ok sd w u : Inv w -> forall x, In x (filter is_real (ports w sd u)) -> obj_okP w x.
+Proof.
+  intros HI x Hx. apply filter_In in Hx. destruct Hx as [Hx _].
+  destruct (InvS_side sd w HI) as [IS _]. eapply I_ok; eauto.
+Qed.
+
+Definition proven (o : op) : bool :=
+  match o with
+  | OEmpty _ _ | OReplaceWith _ None | ONewUnit _ _ _ _ _ _ => false
+  | _ => true
+  end.
+
+Lemma take_place_Good w u v : Inv w -> u < nunits w -> pre_take_place_of w u v = true ->
+  Good w (take_place_of w u v).
+Proof.
+  intros HI Hu Pre. unfold take_place_of. unfold pre_take_place_of in Pre.
+  apply andb_true_iff in Pre. destruct Pre as [P1 P2].
+  apply Good_andthen.
+  - apply (good_Good SIn); auto. apply set_streams_good; auto.
+    + apply (InvS_side SIn w HI).
+    + apply robjs_ok. exact HI.
+  - intros w1 E I1 St. rewrite E in P2. apply (good_Good SOut); auto. apply set_streams_good; auto.
+    + apply (InvS_side SOut w1 I1).
+    + destruct St as [A _ _ _ _]. lia.
+    + apply robjs_ok. exact I1.
+Qed.
+
+Theorem step_Inv w o : Inv w -> wfb w o = true -> preb w o = true -> proven o = true ->
+  Good w (step w o).
+Proof.
+  intros HI Wf Pre Pr. unfold step.
+  destruct o; cbn [wfb preb proven] in Wf, Pre, Pr; try discriminate; cbn [step_with];
+    repeat match goal with H : _ && _ = true |- _ => apply andb_true_iff in H; destruct H end;
+    repeat match goal with H : unit_ok _ _ = true |- _ => apply unit_ok_lt in H end.
+  - (* OSet *) apply (good_Good sd); auto. apply set_stream_good; auto; [apply (InvS_side sd w HI) | now apply resolve_ok].
+  - (* OSetSlice *) apply (good_Good sd); auto. apply set_streams_good; auto; [apply (InvS_side sd w HI)|].
+    intros a Ha. apply in_map_iff in Ha. destruct Ha as (b & <- & Hb). apply resolve_ok; auto.
+    rewrite forallb_forall in H0. auto.
+  - (* OInsert *) apply (good_Good sd); auto. apply insert_stream_good; auto; [apply (InvS_side sd w HI) | now apply resolve_ok].
+  - (* OAppend *) apply (good_Good sd); auto. apply insert_stream_good; auto; [apply (InvS_side sd w HI) | now apply resolve_ok].
+  - (* OExtend *) unfold extend. unfold pre_extend in Pre.
+    destruct (pfixed w sd u) eqn:Fx; [now apply Good_same|]. simpl in Pre.
+    apply andb_true_iff in Pre. destruct Pre as [P1 P2]. apply nodupb_NoDup in P1. rewrite forallb_forall in P2.
+    apply (good_Good sd); auto. apply extend_streams_good; auto; [apply (InvS_side sd w HI) | |].
+    + intros a Ha. apply in_map_iff in Ha. destruct Ha as (b & <- & Hb). apply resolve_ok; auto.
+      rewrite forallb_forall in H0. auto.
+    + intros x Hx. specialize (P2 x Hx). destruct (ptr w sd x); [discriminate | reflexivity].
+  - (* OReplace *) apply (good_Good sd); auto. apply replace_good; auto; [apply (InvS_side sd w HI) | now apply resolve_ok].
+  - (* OPop *) apply (good_Good sd); auto. apply pop_good; auto. apply (InvS_side sd w HI).
+  - (* ORemove *) apply (good_Good sd); auto. apply remove_good; auto. apply (InvS_side sd w HI).
+  - (* OClear *) apply negb_true_iff in Pre. apply (good_Good sd); auto. apply clear_var_good; auto. apply (InvS_side sd w HI).
+  - (* ODisc *) apply (good_Good sd); auto. apply disconnect_side_good. apply (InvS_side sd w HI).
+  - (* ODiscBoth *) apply Good_andthen.
+    + apply (good_Good SOut); auto. apply disconnect_side_good. apply (InvS_side SOut w HI).
+    + intros w1 _ I1 _. apply (good_Good SIn); auto. apply disconnect_side_good. apply (InvS_side SIn w1 I1).
+  - (* OPipeUU *) apply (good_Good SIn); auto. apply set_streams_good; auto; [apply (InvS_side SIn w HI) | apply robjs_ok; exact HI].
+  - (* OUnitDisconnect *) unfold unit_disconnect.
+    apply Good_andthen.
+    { apply (good_Good SIn); auto. apply set_streams_good; auto; [apply (InvS_side SIn w HI) | intros a [] | apply pre_slice_nil]. }
+    intros w1 E1 I1 St1. apply Good_andthen.
+    { apply (good_Good SOut); auto. apply set_streams_good; auto;
+        [apply (InvS_side SOut w1 I1) | destruct St1 as [A _ _ _ _]; lia | intros a [] | apply pre_slice_nil]. }
+    intros w2 E2 I2 St2. destruct join; [|now apply Good_same].
+    rewrite E1, E2 in Pre.
+    destruct (negb (length (filter is_real (ports w SIn u)) =? length (filter is_real (ports w1 SOut u)))) eqn:Ln;
+      [now apply Good_same|]. simpl in Pre.
+    apply join_ends_Good; auto.
+    intros i o Hio. apply in_combine_l in Hio. apply (stat_okP w w2); [eapply stat_trans; [exact St1 | exact St2]|].
+    eapply filter_real_ok; eauto.
+  - (* OUnitInsert *) unfold unit_insert. destruct (resolve w a) as [s| |] eqn:Ra; try now apply Good_same.
+    apply andb_true_iff in Pre. destruct Pre as [Pre Q5].
+    apply andb_true_iff in Pre. destruct Pre as [Pre Q4].
+    apply andb_true_iff in Pre. destruct Pre as [Pre Q3].
+    apply andb_true_iff in Pre. destruct Pre as [Q1 Q2].
+    rewrite Q1, Q2. cbn [negb].
+    destruct (ptr w SIn s) as [v|] eqn:Pi; [|discriminate].
+    destruct (ptr w SOut s) as [t|] eqn:Po; [|discriminate].
+    destruct (hd_arg (ports w SOut u)) as [y|] eqn:Hy; [|discriminate].
+    apply andb_true_iff in Q5. destruct Q5 as [P1 P2].
+    assert (Oy : obj_okP w y).
+    { destruct (ports w SOut u) as [|y' t'] eqn:E; [discriminate|]. inversion Hy; subst.
+      destruct (InvS_side SOut w HI) as [IS _]. apply (I_ok _ _ IS u). rewrite E. now left. }
+    apply Good_andthen.
+    + apply (good_Good SIn); auto. apply replace_good; auto; [apply (InvS_side SIn w HI)|].
+      destruct (InvS_side SIn w HI) as [IS _]. eapply I_uptr; eauto.
+    + intros w1 E1 I1 St1. rewrite E1 in P2.
+      pose proof (St_pfixed _ _ St1 SIn u) as S5. pose proof (St_psize _ _ St1 SIn u) as S4.
+      pose proof (St_nunits _ _ St1) as S1.
+      rewrite S5, S4, Q3, Q4. cbn [orb].
+      destruct (hd_arg (ports w1 SIn u)) as [z|] eqn:Hz; [|now apply Good_same].
+      apply (good_Good SOut); auto. apply replace_good; auto; [apply (InvS_side SOut w1 I1) | |].
+      * destruct (InvS_side SOut w HI) as [IS _]. rewrite S1. eapply I_uptr; eauto.
+      * destruct (InvS_side SIn w1 I1) as [IS _]. apply (I_ok _ _ IS u).
+        destruct (ports w1 SIn u) as [|z' t'] eqn:E; [discriminate|]. simpl in Hz. inversion Hz. now left.
+  - (* OTakePlaceOf *) now apply take_place_Good.
+  - (* OReplaceWith (Some v) *) destruct v as [v|]; [|discriminate]. cbn [replace_with].
+    apply take_place_Good; auto. apply unit_ok_lt; assumption.
+  - (* OReconnect *) unfold reconnect.
+    assert (Ra : rarg_okP w (resolve w a)) by (apply resolve_ok; assumption).
+    assert (Hsrc : match src with Some t => t < nunits w | None => True end).
+    { destruct src; [apply unit_ok_lt; assumption | exact I]. }
+    assert (Hsnk : match snk with Some v => v < nunits w | None => True end).
+    { destruct snk; [apply unit_ok_lt; assumption | exact I]. }
+    assert (PA : match src with Some t => pre_set w SOut t si (resolve w a) = true | None => True end).
+    { destruct src; [assumption | exact I]. }
+    assert (PB : forall w1, fst (match src with
+                                 | Some t => set_stream w SOut t si (resolve w a)
+                                 | None => disconnect_side w SOut (resolve w a)
+                                 end) = w1 ->
+                 match snk with Some v => pre_set w1 SIn v ki (resolve w a) = true | None => True end).
+    { intros w1 E. destruct snk; [|exact I]. rewrite <- E. assumption. }
+    apply Good_andthen.
+    + destruct src as [t|].
+      * apply (good_Good SOut); auto. apply set_stream_good; auto. apply (InvS_side SOut w HI).
+      * apply (good_Good SOut); auto. apply disconnect_side_good. apply (InvS_side SOut w HI).
+    + intros w1 E1 I1 St1. specialize (PB w1 E1). destruct snk as [v|].
+      * apply (good_Good SIn); auto. apply set_stream_good; auto.
+        -- apply (InvS_side SIn w1 I1).
+        -- destruct St1 as [A _ _ _ _]. lia.
+        -- eapply rarg_ok_stat; eauto.
+      * apply (good_Good SIn); auto. apply disconnect_side_good. apply (InvS_side SIn w1 I1).
+Qed.
+
+(* ================================================================ creating a unit whose ports are all missing *)
+Lemma frame_J sd u w w' : frame sd w w' -> J sd u [] w -> J sd u [] w'.
+Proof.
+  intros [A B C D E G H K] [a b c d e f g h k]. constructor.
+  - intros v x HI. rewrite A in HI. left. rewrite B; [|eauto]. destruct (a v x HI) as [Q|[_ []]]. exact Q.
+  - intros v n P. rewrite A. rewrite B in P; [auto | simpl].
+    destruct (Nat.lt_ge_cases n (nreal w)) as [L|L]; [assumption|].
+    destruct (C (S_ n)) as [Q|Q]; rewrite Q in P; [rewrite f in P by assumption|]; discriminate.
+  - intro v. rewrite A. apply c.
+  - intros v N Hf. rewrite A, H. rewrite K in Hf. auto.
+  - intros v x HI. rewrite A in HI. eapply okP_mono; [| |eauto]; lia.
+  - intros n L. destruct (C (S_ n)) as [Q|Q]; rewrite Q; [apply f; lia | reflexivity].
+  - intros v L. rewrite A. apply g. lia.
+  - intros x v P. destruct (C x) as [Q|Q]; rewrite Q in P; [rewrite G; eauto | discriminate].
+  - intros x [].
+Qed.
+
+Lemma init_missing_fresh sd u w : J sd u [] w -> ports w sd u = [] -> u < nunits w ->
+  J sd u [] (init_missing w sd u) /\ length (ports (init_missing w sd u) sd u) = psize w sd u /\
+  frame (other sd) w (init_missing w sd u) /\ stat w (init_missing w sd u).
+Proof.
+  intros HJ E Hu. unfold init_missing.
+  destruct (new_missings w sd u (psize w sd u)) as [w5 ms] eqn:NM.
+  destruct (pend_news sd u _ w [] w5 ms HJ Hu (NoDup_nil _) (fun m (H : In m []) => match H with end) NM)
+    as (J5 & ND5 & P5 & L5 & Fr5 & St5 & Pp5).
+  assert (Hu5 : u < nunits w5) by (destruct St5 as [A _ _ _ _]; lia).
+  pose proof (pend_flush sd u w5 ms J5 Hu5 ND5 P5) as J6.
+  rewrite Pp5, E in J6. simpl in J6, ND5.
+  split; [exact J6|]. split; [rewrite ports_upd_ports_eq; exact L5|].
+  split; [eapply frame_trans; [exact Fr5 | apply frame_upd_ports]|].
+  destruct St5. constructor; auto.
+Qed.
+
+Lemma new_unit_none_Inv w nin nout fin fout : Inv w ->
+  Inv (fst (new_unit w nin nout fin fout FNone FNone)).
+Proof.
+  intros [HI HO]. unfold new_unit. set (u := nunits w).
+  set (w0 := mkW (ports w)
+                (fun sd v => if v =? u then (match sd with SIn => nin | SOut => nout end) else psize w sd v)
+                (fun sd v => if v =? u then (match sd with SIn => fin | SOut => fout end) else pfixed w sd v)
+                (ptr w) (fresh w) (nreal w) (S u)).
+  assert (J0 : forall sd, InvS sd w -> J sd u [] w0).
+  { intros sd [A B C D E F G H]. constructor.
+    - intros v x HIn. left. apply A. exact HIn.
+    - exact B.
+    - exact C.
+    - intros v N. unfold w0; simpl. apply Nat.eqb_neq in N. rewrite N. apply D.
+    - exact E.
+    - exact F.
+    - intros v L. apply G. simpl in L. unfold u in *. lia.
+    - intros x v P. simpl. apply H in P. unfold u. lia.
+    - intros x []. }
+  assert (P0 : forall sd, InvS sd w -> ports w0 sd u = []).
+  { intros sd IS. apply (I_units _ _ IS). unfold u. lia. }
+  assert (Hu0 : u < nunits w0) by (simpl; lia).
+  assert (IP : forall w' sd, init_ports w' sd u FNone = ok (init_missing w' sd u)).
+  { intros w' sd. unfold init_ports. destruct (pfixed w' sd u); reflexivity. }
+  rewrite IP.
+  destruct (init_missing_fresh SIn u w0 (J0 SIn HI) (P0 SIn HI) Hu0) as (J1 & L1 & Fr1 & St1).
+  set (w1 := init_missing w0 SIn u) in *. cbn [ok].
+  rewrite IP. cbn [ok fst].
+  assert (JO1 : J SOut u [] w1) by (eapply frame_J; [exact Fr1 | exact (J0 SOut HO)]).
+  assert (PO1 : ports w1 SOut u = []) by (rewrite (F_ports _ _ _ Fr1); exact (P0 SOut HO)).
+  assert (Hu1 : u < nunits w1) by (destruct St1 as [A _ _ _ _]; lia).
+  destruct (init_missing_fresh SOut u w1 JO1 PO1 Hu1) as (J2 & L2 & Fr2 & St2).
+  split.
+  - eapply frame_InvS; [exact Fr2|]. eapply J_Inv; [exact J1|]. intros _. rewrite L1.
+    destruct St1 as [_ _ _ S4 _]. now rewrite S4.
+  - eapply J_Inv; [exact J2|]. intros _. rewrite L2. destruct St2 as [_ _ _ S4 _]. now rewrite S4.
+Qed.
+
+Lemma Inv_empty k : Inv (empty_world k).
+Proof.
+  split; constructor; simpl; intros; try tauto; try discriminate; try constructor.
+Qed.
+
+(* ================================================================ histories *)
+Definition provenb (o : op) : bool :=
+  match o with
+  | ONewUnit _ _ _ _ FNone FNone => true
+  | _ => proven o
+  end.
+
+Theorem step_Inv' w o : Inv w -> wfb w o = true -> preb w o = true -> provenb o = true ->
+  Inv (fst (step w o)).
+Proof.
+  intros HI Wf Pre Pr.
+  destruct (proven o) eqn:E.
+  - now apply step_Inv.
+  - destruct o; try discriminate;
+      try (match goal with v : option nat |- _ => destruct v; simpl in *; discriminate end).
+    repeat match goal with f : form |- _ => destruct f; try discriminate end.
+    apply new_unit_none_Inv. exact HI.
+Qed.
+
+Fixpoint within (w : world) (ops : list op) : Prop :=
+  match ops with
+  | [] => True
+  | o :: t => wfb w o = true /\ preb w o = true /\ provenb o = true /\ within (fst (step w o)) t
+  end.
+
+Theorem history_Inv ops : forall w, Inv w -> within w ops -> Inv (run w ops).
+Proof.
+  unfold run. induction ops as [|o t IH]; intros w HI HW; simpl.
+  - exact HI.
+  - destruct HW as (Wf & Pre & Pr & HW). apply IH; [|exact HW]. now apply step_Inv'.
+Qed.
+
+(* ================================================================ the decidable form of the invariant is implied by it *)
+Lemma InvS_sideb sd w : InvS sd w -> inv_sideb w sd = true.
+Proof.
+  intros [A B C D E F G H]. unfold inv_sideb. apply andb_true_iff. split.
+  - apply forallb_forall. intros u _. apply andb_true_iff. split; [apply andb_true_iff; split|].
+    + apply forallb_forall. intros x Hx. rewrite (A u x Hx). simpl. apply Nat.eqb_refl.
+    + apply nodupb_NoDup. apply C.
+    + destruct (pfixed w sd u) eqn:Fx; simpl; [|reflexivity]. apply Nat.eqb_eq. now apply D.
+  - apply forallb_forall. intros n _. destruct (ptr w sd (S_ n)) as [u|] eqn:P; [|reflexivity].
+    apply mem_In. now apply B.
+Qed.
+Lemma Inv_invb w : Inv w -> invb w = true.
+Proof. intros [A B]. unfold invb. now rewrite (InvS_sideb SIn w A), (InvS_sideb SOut w B). Qed.
+Lemma not_Inv w : invb w = false -> ~ Inv w.
+Proof. intros H HI. apply Inv_invb in HI. congruence. Qed.
+
+(* ================================================================ what the invariant says, in the property's words *)
+Lemma Inv_meaning w : Inv w ->
+  (forall u s, In (S_ s) (ports w SIn u) <-> ptr w SIn (S_ s) = Some u) /\
+  (forall u s, In (S_ s) (ports w SOut u) <-> ptr w SOut (S_ s) = Some u) /\
+  (forall sd u, NoDup (ports w sd u)) /\
+  (forall sd u v x, In x (ports w sd u) -> In x (ports w sd v) -> u = v) /\
+  (forall sd u, pfixed w sd u = true -> length (ports w sd u) = psize w sd u) /\
+  (forall sd u m, In (M_ m) (ports w sd u) -> ptr w sd (M_ m) = Some u /\ is_real (M_ m) = false).
+Proof.
+  intros [HI HO].
+  assert (S : forall sd, InvS sd w) by (intros []; assumption).
+  split; [|split; [|split; [|split; [|split]]]].
+  - intros u s. split; [apply (I_ptr _ _ HI) | apply (I_real _ _ HI)].
+  - intros u s. split; [apply (I_ptr _ _ HO) | apply (I_real _ _ HO)].
+  - intros sd u. apply (I_nodup _ _ (S sd)).
+  - intros sd u v x H1 H2. apply (I_ptr _ _ (S sd)) in H1. apply (I_ptr _ _ (S sd)) in H2. congruence.
+  - intros sd u. apply (I_len _ _ (S sd)).
+  - intros sd u m H. split; [now apply (I_ptr _ _ (S sd)) | reflexivity].
+Qed.
+
+(* a vacated port holds a new placeholder and the list keeps its length *)
+Lemma remove_vacates sd w u x k : index_of x (ports w sd u) = Some k ->
+  ports (fst (remove w sd u (RObj x))) sd u = upd (ports w sd u) k (M_ (fresh w)).
+Proof.
+  intro E. unfold remove, new_missing. cbn [replace ports bump_fresh upd_ptr]. rewrite E.
+  unfold set_stream, as_stream. cbn [ports bump_fresh upd_ptr length].
+  destruct (index_of_split _ _ _ E) as (l1 & l2 & EL & Lk & _).
+  assert (Lt : k < length (ports w sd u)) by (rewrite EL, app_length; simpl; lia).
+  rewrite (norm_index_of_nat k _ Lt). cbn [ok fst]. rewrite ports_upd_ports_eq.
+  destruct (redock_misc sd u (M_ (fresh w))
+             (undock (bump_fresh (upd_ptr (upd_ptr w sd (M_ (fresh w)) (Some u)) (other sd) (M_ (fresh w)) None)) sd
+                     (nth k (ports w sd u) (M_ (fresh w))))) as (_ & _ & Pu).
+  rewrite Pu. reflexivity.
+Qed.
+
+(* ================================================================ a small universe used by the examples in Props.v *)
+Definition setup3 : list op :=
+  [ONewUnit 1 1 true true FNone FNone; ONewUnit 2 1 false true FNone FNone; ONewUnit 2 2 true false FNone FNone].
+Definition U3 : world := run (empty_world 5) setup3.
+Lemma Inv_after pre : within (empty_world 5) (setup3 ++ pre) -> Inv (run U3 pre).
+Proof.
+  intro H. unfold U3, run. rewrite <- fold_left_app. apply (history_Inv (setup3 ++ pre)); [apply Inv_empty | exact H].
+Qed.
